@@ -1,22 +1,28 @@
 """C18 - the readelf clone (scripts/readelf.py) prints what GNU readelf prints.
 
-    file (shipped corpus | synthesized by vf.enc.elf from one entry of a description table | random combination)
-       --> /usr/bin/readelf <option> <file>                    (deciding oracle, stdout only, LC_ALL=C)
+    file (shipped corpus | synthesized by vf.enc.elf / vf.enc.dwarf from ONE entry of a description table | random combination)
+       --> /usr/bin/readelf <option> <file>                    (deciding oracle, stdout only, LC_ALL=C, TZ=UTC)
        --> ReadElf(file, StringIO).display_*()                 (the clone, in-process, same calls as its main())
        --> the project's own compare_output() (test/run_readelf_tests.py, loaded by path from the tree under test)
 
 The two outputs are first compared as a whole by compare_output.  Only when that fails are they aligned line by
-line (difflib on whitespace-free lower-case lines) and compare_output is re-run after neutralising each reported
-line, so that every differing line is classified on its own: outside the envelope (clone says <unknown>),
-oracle-does-not-know (GNU says <unknown>/unrecognized/unsupported), a documented 2.40-vs-2.41 effect, or a
-discrepancy, which is bucketed by (option, table entry that produced the line) for the marked line of a
-synthesized file and by (option, class of line) otherwise.
+line (difflib on whitespace-free lower-case lines; lines only one tool prints are findings) and compare_output is
+re-run after neutralising each line it reports, so that every differing line is classified on its own:
+  * outside the envelope      the clone says it does not know the code (<unknown>, unrecognized, Unknown AT value, ...)
+  * oracle-does-not-know      GNU readelf 2.40 says it does not know the code while the clone prints a name (2.41 feature
+                              or a name GNU never had) - not compared, counted per table entry (skip.oracle_unknown|...)
+  * discrepancy               bucketed by (option, table entry that produced the line) when the line belongs to the marked
+                              entity of a synthesized file, by the ELF-header field value for header lines, and by
+                              (option, class of line) otherwise; -e lines are keyed as the -h/-S/-l line they are
+An exception escaping the clone is a discrepancy, too (main() only catches ELFError, and then exits 1, which the project's
+runner counts as a failure): bucket clone.exception|<option>|<type>|<innermost library frame>.
 """
 import io
 import os
 import re
 import ast
 import sys
+import zlib
 import atexit
 import shutil
 import struct
@@ -30,47 +36,75 @@ from hypothesis import strategies as st
 
 from vf import core
 from vf.enc import elf as W
-from vf.choose import RndChooser, HypChooser
+from vf.choose import HypChooser
 
 ID = 'C18'
 READELF = '/usr/bin/readelf'
 CORPUS_DIR = 'test/testfiles_for_readelf'
 
-RULE = ('(i) every non-empty *.elf of test/testfiles_for_readelf x the option list parsed out of '
-        'test/run_readelf_tests.py (+ -h, -l, -S on their own), minus exactly the exclusions coded in that runner and the '
-        'documented binutils-2.40 effects; (ii) one tiny ELF file per entry of the clone\'s description tables '
-        '(every ENUM_E_MACHINE / ENUM_EI_OSABI / e_type / e_version value, e_flags values per decoded machine, every sh_type '
-        'of every per-machine enum, every sh_flags bit, every p_type per machine, all p_flags values, symbol type / bind '
-        '/ visibility / st_shndx values, every d_tag per machine and OS ABI, every DT_FLAGS / DT_FLAGS_1 / DT_MIPS_FLAGS bit, '
-        'DT_PLTREL values, GNU note types / ABI-tag OS values / GNU property types and bits, every relocation type of the 9 '
-        'described machines as REL and RELA, version flag combinations), written by the independent writer vf.enc.elf in both classes '
-        'and byte orders where the format allows, compared under the matching option; (iii) random files combining several '
-        'table entries (sections, segments, symbols, dynamic tags, relocations) compared under -h/-S/-l/-e/-s/-d/-r/-x/-p. The clone is run '
-        'in-process exactly as its main() does, GNU readelf as a subprocess; outputs are compared with the project\'s '
-        'compare_output, then line by line for bucketing. Non-trivial: a (file, option) pair in which >= 3 non-header '
-        'lines (lines containing a digit and not ending in ":") were compared. Distinct by SHA-1 of file bytes + option.')
-N = {'quick': 400, 'thorough': 20000}
+RULE = ('(i) every non-empty *.elf of test/testfiles_for_readelf x the option list parsed out of test/run_readelf_tests.py '
+        '(+ -h, -l, -S on their own), minus exactly the exclusions coded in that runner and the documented binutils-2.40 '
+        'effects. (ii) one tiny file per entry of the clone\'s description tables, written by the independent writers '
+        'vf.enc.elf / vf.enc.dwarf / vf.enc.c12_expr and compared under the matching option: -h every ENUM_E_MACHINE, '
+        'ENUM_EI_OSABI (x 3 machines), e_type, e_version value and every E_FLAGS constant of the 5 machines whose flags the '
+        'clone decodes; -S every sh_type of every per-machine enum (both classes), every named sh_flags bit + combinations, '
+        'numeric column widths, long names; -l every p_type per machine, p_flags 0..7 and mask bits, counts, numeric widths; '
+        '-s symbol type/bind 0..15 (3 machine/OSABI contexts), visibility 0..7, PPC64 local-entry bits, st_shndx specials incl. '
+        'SHN_XINDEX, numeric widths, long names, dynsym with versions; -d every d_tag per machine / OS ABI with a value of the '
+        'right kind, every DT_FLAGS / DT_FLAGS_1 / DT_MIPS_FLAGS bit, DT_PLTREL values; -n GNU note types, ABI-tag OS values, GNU '
+        'property types x every bit of the clone\'s bit tables x 4 machines; -r every relocation type of the 9 machines the clone '
+        'describes as REL and RELA (ELF64 MIPS with Type2/Type3); -V version flag combinations in verdef and vernaux; '
+        '--debug-dump=info every DW_TAG, DW_AT, DW_FORM (DWARF 2-5, 32/64-bit), DW_LANG, DW_ATE, access/visibility/virtuality/'
+        'id-case/calling-convention/inline/ordering value, every DW_OP the library names (operands from an independent '
+        'operation table) and every named DWARF register of x86, x86-64, AArch64; --debug-dump=frames and frames-interp every '
+        'DW_CFA opcode the library names (CIE versions 1/3/4). (iii) random files (Hypothesis) that combine entries on which '
+        'the tools agree with arbitrary numeric fields, counts, names, payload bytes, classes and byte orders, compared under '
+        '-h/-S/-l/-e/-s/-d/-r/-x<sec>/-p<sec>. The clone runs in-process exactly as its main() does, GNU readelf as a subprocess; '
+        'outputs are compared with the project\'s compare_output, then line by line for bucketing. Non-trivial: a (file, option) '
+        'pair in which >= 3 non-header lines (containing a digit, not ending in ":") were compared. Distinct by SHA-1 of file '
+        'bytes + option.')
+N = {'quick': 2000, 'thorough': 100000}
 
 ASSUMPTIONS = [
     'the deciding oracle is /usr/bin/readelf = GNU binutils 2.40 (the project pins 2.41); only stdout is compared, '
     'stderr (warnings) of both tools is ignored like in the project runner; a pair for which GNU readelf exits non-zero '
-    'is counted (oracle.rc_nonzero) and not decided',
+    'is counted (oracle.rc_nonzero) and not decided; more than 5% such pairs is a harness error',
     'project exclusions applied verbatim from run_test_on_file: dwarf_debug_types.elf x frames/frames-interp/aranges; '
     '"core" in the file name x -n; dwarf_v4cie x frames-interp/aranges; -A/--arch-specific only for "-eabi-" files',
     '2.40 effect (not decided): --debug-dump=loc / =Ranges on files that contain .debug_loclists / .debug_rnglists '
     '(2.40 prints an older, incompatible layout); counted as excluded.v240.lists',
     '2.40 effect (not decided): the --debug-dump options on EM_LOONGARCH relocatable objects (2.40 cannot apply the '
     'ADD/SUB relocations of the debug sections); counted as excluded.v240.loongarch_debug',
-    'envelope: a differing line in which the clone prints "<unknown>" or "unrecognized" is outside the envelope '
-    '(counted envelope.clone_unknown); a differing line in which GNU readelf prints "<unknown", "unrecognized" or '
-    '"unsupported" while the clone prints a name is oracle-does-not-know (counted envelope.oracle_unknown); neither is compared',
+    '2.40 effect (not compared, counted per entry as skip.oracle_unknown): names readelf 2.40 does not have, e.g. '
+    'R_LARCH_* 101..109',
+    'envelope: a differing line in which the clone prints one of its own "do not know" texts (<unknown>, <unknown ...>, '
+    'unrecognized, Unknown note type:, Unknown AT value:, (Unknown: ..), (unknown ...), ": <??>", or a LOOS+/LOPROC+/LOUSER+ '
+    'fall-through where GNU prints a name) is outside the envelope (envelope.clone_unknown); a differing line in which GNU '
+    'readelf prints one of its "do not know" texts (<unknown..., unrecognized, unsupported, Operating System specific:, '
+    'Processor Specific:, Unknown note type:, <procesor-specific type, Unknown AT value:, Unknown TAG value:, User TAG value:, '
+    '(Unknown: ..), (unknown ...), (user defined type), (implementation defined: ..), (unknown location op ..), (rN) for a DWARF '
+    'register outside ARM, LOOS+/LOPROC+ where the clone prints a name) is oracle-does-not-know (envelope.oracle_unknown); '
+    'neither is compared',
+    'the synthesized domain is the clone\'s own tables: flag bits, e_flags fields, property bits, register numbers, note owners '
+    'and reserved section indices that no table of the clone names are not generated (GNU names many of them; the clone prints '
+    'nothing or a number for them, so the <unknown> rule would not exclude them)',
     'synthesized files are well formed for what the option reads: typed sections carry a valid (possibly empty) payload, the '
-    'right sh_entsize and sh_link; dynamic strings live in a section named .dynstr; every file has a section header table',
-    'synthesized -n files are not core files (the project excludes core notes); synthesized symbol tables keep st_shndx '
-    'either special or < e_shnum; relocation types are only generated when they fit the r_info type field of the class',
+    'right sh_entsize and sh_link; -d / versioned files are shared objects whose PT_LOAD maps the file at vaddr == offset and '
+    'whose PT_DYNAMIC covers .dynamic (GNU readelf only finds the dynamic section through the program headers); dynamic '
+    'strings live in .dynstr; every file has a section header table',
+    'synthesized -n files are not core files (the project excludes core notes), GNU properties have the data length their ABI '
+    'prescribes and 4/8-byte padding by class; symbol tables keep st_shndx special or < e_shnum, STT_SECTION symbols point to '
+    'a section; relocation types are only generated when they fit the r_info type field of the class',
+    'DW_AT sweep: attributes the clone decodes as expressions carry DW_FORM_exprloc, DW_AT_import a reference, all others '
+    'DW_FORM_data1 = 1 (both tools print a value by its form); attributes whose constant GNU annotates from a table the clone '
+    'lacks (decimal_sign, defaulted, endianity, discr_list) are not generated; DW_OP_fbreg sits in a subprogram with a frame base',
+    '-p is only applied to sections holding printable ASCII strings and NULs (GNU escapes control and non-ASCII characters in '
+    'ways the clone does not claim to reproduce)',
     'empty corpus files (many_sections.o.elf is emptied in this tree) are skipped and counted',
-    'in-process run resets elftools.dwarf.descriptions._MACHINE_ARCH and _DWARF_EXPR_DUMPER_CACHE before every file, '
-    'which is the state a fresh `python scripts/readelf.py` process starts with',
+    'in-process run resets elftools.dwarf.descriptions._MACHINE_ARCH and _DWARF_EXPR_DUMPER_CACHE (keyed by id()) before every '
+    'file, which is the state a fresh `python scripts/readelf.py` process starts with; sys.stderr is captured',
+    'compare_output itself raises ValueError on some differing DW_AT_const_value lines; the differing line is then located '
+    'by comparing line by line with compare_output (counted compare_output.raised)',
 ]
 
 DEFAULT_OPTIONS = [
@@ -280,7 +314,7 @@ def readelf_version():
 
 def run_gnu(path, option):
     r = subprocess.run([READELF, option, path], stdout=subprocess.PIPE, stderr=subprocess.PIPE,
-                       env=dict(os.environ, LC_ALL='C'))
+                       env=dict(os.environ, LC_ALL='C', TZ='UTC'))
     return r.returncode, r.stdout.decode('latin-1')
 
 
@@ -312,8 +346,14 @@ def is_nonheader(line):
 
 
 _RE_MISMATCH = re.compile(r'Mismatch on line #(\d+):')
-_CLONE_UNKNOWN = ('<unknown>', 'unrecognized')
-_GNU_UNKNOWN = ('<unknown', 'unrecognized', 'unsupported')
+_CLONE_UNKNOWN = ('<unknown>', '<unknown ', 'unrecognized', 'unknown note type:', 'unknown at value:', '(unknown: ', '(unknown ',
+                  ': <??>')
+_GNU_UNKNOWN = ('<unknown', 'unrecognized', 'unsupported', '(operating system specific: ', '(processor specific: ',
+                'unknown note type:', '-specific type 0x', 'unknown at value:', 'unknown tag value:', 'user tag value:',
+                '(unknown: ', '(unknown ', '(unknown location op', '(user defined type)', '(implementation defined: ')
+# both tools print a code nobody names as <range>+offset; such a text is "I do not know this code" as well
+_RANGE_FALLTHROUGH = re.compile(r'\b(loos|loproc|louser)\+')
+_STRUCTURAL = re.compile(r'heading|title|columns|\.key$|none$')
 
 
 def lineclass(opt, g, c):
@@ -360,7 +400,9 @@ def lineclass(opt, g, c):
         if re.match(r'^\d\d(\s|$)', s):
             return 'segments.mapping'
         if re.match(r'^[0-9a-f]{16}\s+[0-9a-f]{16}', s):
-            return 'entry2'
+            return 'sections.entry2'
+        if re.match(r'^0x[0-9a-f]{16}\s+0x[0-9a-f]{16}(\s|$)', s) and len(s.split()) <= 6:
+            return 'segments.entry2'
         if re.match(r'^[a-z_+<>0-9:]+\s+0x[0-9a-f]+\s+0x[0-9a-f]+', s):
             return 'segments.entry'
         return 'line'
@@ -423,6 +465,10 @@ def lineclass(opt, g, c):
     if o.startswith('-x') or o.startswith('-p'):
         if 'dump of section' in s:
             return 'heading'
+        if 'has no data to dump' in s:
+            return 'nodata'
+        if 'no strings found' in s:
+            return 'nostrings'
         if re.match(r'^0x[0-9a-f]+\s', s):
             return 'row'
         if re.match(r'^\[\s*[0-9a-f]+\]', s):
@@ -473,12 +519,43 @@ def header_bucket(cl, info):
     return cl
 
 
+def project_compare(ctx, g, c):
+    """compare_output on two lists of prepared lines of equal length -> (True, None) | (False, index of the line it
+    reports).  compare_output itself can raise on a differing line (it parses the last token of a DW_AT_const_value line
+    as a number); the line is then located by comparing line by line."""
+    cmp_out = proj()['compare_output']
+    try:
+        ok, msg = cmp_out('\n'.join(g), '\n'.join(c))
+        if ok:
+            return True, None
+        m = _RE_MISMATCH.search(msg)
+        if not m:
+            raise core.HarnessError('compare_output gave an unexpected message: %r' % msg[:200])
+        return False, int(m.group(1))
+    except core.HarnessError:
+        raise
+    except Exception:
+        ctx.count('compare_output.raised')
+        for i, (a, b) in enumerate(zip(g, c)):
+            try:
+                ok, _m = cmp_out(a, b)
+            except Exception:
+                ok = False
+            if not ok:
+                return False, i
+        return True, None
+
+
 def compare(ctx, case, opt, gnu_out, clone_out, what=None, mark=None, tag='', info=None):
     """Compare the two outputs; record buckets.  -> number of compared non-header lines."""
-    cmp_out = proj()['compare_output']
-    ok, msg = cmp_out(gnu_out, clone_out)
     g, c = prep(gnu_out), prep(clone_out)
+    ok = len(g) == len(c) and project_compare(ctx, g, c)[0]
     ko = optkey(opt)
+
+    def okey(cl):       # -e prints what -h, -S and -l print: name the part, so that one root cause has one key
+        if ko != '-e':
+            return ko
+        return '-h' if cl.startswith('header.') else '-S' if cl.startswith('sections.') else '-l' if cl.startswith('segments.') else ko
     if ok:
         ctx.count('pairs.equal_whole')
         ctx.count('lines.compared', len(g))
@@ -494,6 +571,9 @@ def compare(ctx, case, opt, gnu_out, clone_out, what=None, mark=None, tag='', in
             return 0
         sm = difflib.SequenceMatcher(None, gs, cs, autojunk=False)
         g2, c2 = [], []
+        after0 = None
+        if isinstance(mark, dict) and what:
+            after0 = next((k for k, l in enumerate(g) if re.search(mark['after'], l)), len(g))
         for op, i1, i2, j1, j2 in sm.get_opcodes():
             if op == 'equal':
                 g2 += g[i1:i2]
@@ -502,35 +582,39 @@ def compare(ctx, case, opt, gnu_out, clone_out, what=None, mark=None, tag='', in
             k = min(i2 - i1, j2 - j1)
             g2 += g[i1:i1 + k]
             c2 += c[j1:j1 + k]
+            marked = after0 is not None and i1 >= after0
             for l in g[i1 + k:i2]:
                 nfind += 1
                 if nfind <= MAX_LINE_FINDINGS:
                     ctx.count('lines.missing')
-                    ctx.fail('%s|missing|%s' % (ko, lineclass(opt, l, None)),
+                    ctx.fail(('%s|%s' % (ko, what)) if marked else
+                             '%s|missing|%s' % (okey(lineclass(opt, l, None)), lineclass(opt, l, None)),
                              '%s %s: line printed by GNU readelf only: %r' % (tag, opt, l), case)
             for l in c[j1 + k:j2]:
                 nfind += 1
                 if nfind <= MAX_LINE_FINDINGS:
                     ctx.count('lines.extra')
-                    ctx.fail('%s|extra|%s' % (ko, lineclass(opt, None, l)),
+                    ctx.fail(('%s|%s' % (ko, what)) if marked else
+                             '%s|extra|%s' % (okey(lineclass(opt, None, l)), lineclass(opt, None, l)),
                              '%s %s: line printed by the clone only: %r' % (tag, opt, l), case)
         g, c = g2, c2
     # 2. project comparison, neutralising one reported line at a time
     compared = len(g)
+    g0 = list(g)
+    after_idx = None
     rounds = 0
     while True:
-        ok, msg = cmp_out('\n'.join(g), '\n'.join(c))
+        ok, i = project_compare(ctx, g, c)
         if ok:
             break
-        m = _RE_MISMATCH.search(msg)
-        if not m:
-            raise core.HarnessError('compare_output gave an unexpected message: %r' % msg[:200])
-        i = int(m.group(1))
         lg, lc = g[i], c[i]
         compared -= 1
-        if any(t in lc for t in _CLONE_UNKNOWN):
+        rf_g, rf_c = bool(_RANGE_FALLTHROUGH.search(lg)), bool(_RANGE_FALLTHROUGH.search(lc))
+        if info and info['e_machine'] != 40 and not rf_g and re.search(r'dw_op_\w+: \d+ \(r\d+\)', lg) and not re.search(r'\(r\d+\)', lc):
+            rf_g = True         # GNU's text for a DWARF register number it has no name for (rN is a real name on ARM only)
+        if any(t in lc for t in _CLONE_UNKNOWN) or (rf_c and not rf_g):
             ctx.count('envelope.clone_unknown|%s' % ko)
-        elif any(t in lg for t in _GNU_UNKNOWN):
+        elif any(t in lg for t in _GNU_UNKNOWN) or (rf_g and not rf_c):
             ctx.count('envelope.oracle_unknown|%s' % ko)
             if what:
                 ctx.count('skip.oracle_unknown|%s|%s' % (ko, what))
@@ -538,7 +622,11 @@ def compare(ctx, case, opt, gnu_out, clone_out, what=None, mark=None, tag='', in
             nfind += 1
             cl = lineclass(opt, lg, lc)
             on_mark = False
-            if mark is not None:
+            if isinstance(mark, dict):
+                if after_idx is None:
+                    after_idx = next((k for k, l in enumerate(g0) if re.search(mark['after'], l)), len(g0))
+                on_mark = i >= after_idx
+            elif mark is not None and not _STRUCTURAL.search(cl):
                 lo = i
                 if cl.endswith('entry2'):
                     lo = max(0, i - 2)
@@ -546,11 +634,14 @@ def compare(ctx, case, opt, gnu_out, clone_out, what=None, mark=None, tag='', in
                     if re.search(mark, g[k]) or re.search(mark, c[k]):
                         on_mark = True
             if cl.startswith('header.'):
-                bucket = '%s|%s' % ('-h' if ko == '-e' else ko, header_bucket(cl, info))
+                bucket = '%s|%s' % (okey(cl), header_bucket(cl, info))
+            elif ko == '-r' and cl == 'entry2':
+                # the Type2:/Type3: continuation lines of ELF64 MIPS are printed by one piece of code for every type
+                bucket = '-r|mips64_type2_type3_line'
             elif on_mark and what:
                 bucket = '%s|%s' % (ko, what)
             else:
-                bucket = '%s|%s' % (ko, cl)
+                bucket = '%s|%s' % (okey(cl), cl)
             ctx.count('lines.differ')
             ctx.fail(bucket, '%s %s: GNU readelf %r, the clone %r' % (tag, opt, lg, lc), case)
         g[i] = c[i] = NEUTRAL
@@ -602,6 +693,8 @@ def run_case(ctx, case):
         tag = '%s[%s]' % (kind, what or '')
         if what:
             ctx.count('table.%s' % what.split('|')[0])
+        elif case.get('family'):
+            ctx.count('table.%s' % case['family'])
     info = peek(data)
     why = version_exclusion(info, opt)
     if why:
@@ -621,7 +714,7 @@ def run_case(ctx, case):
         raise
     except Exception as e:  # what main() would turn into "ELF error" + exit 1, or a traceback
         ctx.count('clone.exception')
-        ctx.fail_exc('clone.exception|%s%s' % (optkey(opt), ('|' + what) if what else ''), e, case, extra=tag)
+        ctx.fail_exc('clone.exception|%s' % optkey(opt), e, case, extra=tag)
         ctx.case(key, False)
         return
     ctx.count('opt.%s' % optkey(opt))
@@ -814,11 +907,16 @@ def sh_payload(cls, le, typ, machine_name):
         return dict(data=b'A' + struct.pack(W.E(le) + 'I', 4 + len(vendor) + len(sub)) + vendor + sub)
     if typ == SHT_NOBITS:
         return dict(data=b'', size_override=0x20)
+    if typ == 17:       # SHT_GROUP: flag word + one member, signature = symbol 0 of .symtab
+        return dict(link=3, info=0, entsize=4, data=struct.pack(W.E(le) + 'II', 1, 2), align=4)
     return dict(data=b'\x00\x01\x02\x03\x04\x05\x06\x07')
 
 
 def section_file(cls, le, machine, mname, typ, flags, osabi=0):
     p = sh_payload(cls, le, typ, mname)
+    if flags & 0x800 and typ == SHT_PROGBITS:      # SHF_COMPRESSED: a real compression header + zlib stream
+        raw = bytes(range(64))
+        p = dict(p, data=W.enc_chdr(cls, le, 1, len(raw), 1) + zlib.compress(raw), align=4 if cls == 32 else 8)
     extra = {}
     if 'size_override' in p:
         extra['size_override'] = p['size_override']
@@ -859,17 +957,19 @@ def section_cases():
                      0x70000005, 0x7fffffff, 0x80000001):
             out.append(synth('-S', 'sh_type|m=%s|c=%d|unnamed(0x%x)' % (mname, cls, code), r'\.c18t',
                              section_file(cls, True, m, mname, code, 0)))
-    # flags: every bit alone (bits >= 32 exist in ELF64 only), on PROGBITS; plus combinations
-    combos = [0, 3, 6, 7, 0x30, 0x32, 0x42, 0x82, 0x202, 0x403, 0x802, 0x0ff00000, 0xf0000000, 0x80000000, 0x80000002,
-              0x70000000, 0xffffffff, 0x7ff, 0x10000002, 0x20000000, 0x40000000, 0x01000000, 0x00100000]
-    for mname, m in (('EM_X86_64', EM['X86_64']), ('EM_ARM', EM['ARM']), ('EM_386', EM['I386'])):
-        for cls in ((64,) if mname == 'EM_X86_64' else (32,)):
-            bits = [1 << b for b in range(cls)]
-            for v in bits + combos:
-                if mname != 'EM_X86_64' and v not in combos and v < 0x100000 and mname == 'EM_386':
-                    pass
-                out.append(synth('-S', 'sh_flags|m=%s|c=%d|0x%x' % (mname, cls, v), r'\.c18t',
-                                 section_file(cls, True, m, mname, SHT_PROGBITS, v)))
+    # flags: every entry of the clone's _DESCR_SH_FLAGS and every single-bit SH_FLAGS constant of the library alone, the
+    # two masks through representative values, and combinations of those bits.  Bits nobody names are outside the envelope,
+    # and so are the GNU/x86-64 specific meanings of bits inside the masks (mbind, retain, large).
+    known = set(k for k in de._DESCR_SH_FLAGS if isinstance(k, int))
+    known |= set(v for k, v in vars(co.SH_FLAGS).items() if k.startswith('SHF_') and isinstance(v, int))
+    single = sorted(v for v in known if v and v & (v - 1) == 0)
+    combos = [0, 3, 6, 7, 0x30, 0x32, 0x42, 0x82, 0x202, 0x403, 0x7f7, 0x80000002, 0x00100000, 0x0ff00000, 0x40000000,
+              0x0ff007f7, 0x8ff007f7, 0xc0000000]
+    for mname, m, cls in (('EM_X86_64', EM['X86_64'], 64), ('EM_ARM', EM['ARM'], 32), ('EM_386', EM['I386'], 32)):
+        vals = single + combos + ([0x20000000, 0x70000000] if mname != 'EM_X86_64' else [])
+        for v in vals:
+            what = 'sh_flags|0x%x' % v if not (mname == 'EM_ARM' and v & 0x20000000) else 'sh_flags|m=%s|0x%x' % (mname, v)
+            out.append(synth('-S', what, r'\.c18t', section_file(cls, True, m, mname, SHT_PROGBITS, v)))
     # numeric columns of one entry: link/info/align/entsize/size/offset widths
     for cls, le in CELLS:
         big = (1 << cls) - 1
@@ -880,7 +980,7 @@ def section_cases():
             out.append(synth('-S', 'sh_numeric|c=%d|le=%d|row=%d' % (cls, le, i), r'\.c18t',
                              elf_model(cls, le, EM['X86_64'] if cls == 64 else EM['I386'], [t, sec('.b', SHT_PROGBITS, data=b'x'), sec('.c', SHT_PROGBITS, data=b'y')])))
     # long / odd section names
-    for nm in ('.c18t_a_rather_long_section_name', '.c18t.exactly17ch', '.c18t.sixteen_ch', '.c18t\x01ctl'):
+    for nm in ('.c18t_a_rather_long_section_name', '.c18t.exactly17ch', '.c18t.sixteen_ch'):
         t = sec(nm, SHT_PROGBITS, 2, addr=0x2000, data=b'abcd')
         for cls in (32, 64):
             out.append(synth('-S', 'sh_name|c=%d|len=%d' % (cls, len(nm)), r'\.c18t',
@@ -915,17 +1015,20 @@ def segment_cases():
     for mname, m, table, cls in per_machine:
         codes = uniq_codes(table)
         if mname in ('EM_386', 'EM_X86_64'):
-            codes += [(8, 'unnamed'), (0x60000001, 'unnamed'), (0x6474e554, 'unnamed'), (0x6464e550, 'unnamed'),
-                      (0x65a3dbe6, 'unnamed'), (0x65a41be6, 'unnamed'), (0x6ffffffa, 'unnamed'), (0x6ffffffb, 'unnamed'),
-                      (0x70000000, 'unnamed'), (0x70000001, 'unnamed'), (0x7fffffff, 'unnamed'), (0x80000000, 'unnamed'),
-                      (0xffffffff, 'unnamed')]
+            # codes nobody names: the fall-through texts (one root cause per range => one key per range)
+            codes += [(8, 'unnamed'), (0x60000001, 'unnamed_os'), (0x6ffffffa, 'unnamed_os'), (0x70000000, 'unnamed_proc'),
+                      (0x7fffffff, 'unnamed_proc'), (0x80000000, 'unnamed'), (0xffffffff, 'unnamed')]
         for code, name in codes:
             if mname not in ('EM_386', 'EM_X86_64') and code in base_codes and code not in (1,):
                 continue
             le = (n % 3 != 2) if mname in ('EM_ARM', 'EM_MIPS') else True
             n += 1
-            out.append(synth('-l', 'p_type|m=%s|c=%d|%s(0x%x)' % (mname, cls, name, code), r'c18000',
-                             segment_file(cls, le, m, code, 4)))
+            what = 'p_type|m=%s|c=%d|%s(0x%x)' % (mname, cls, name, code)
+            if name.startswith('unnamed'):
+                what = 'p_type|%s' % name
+            elif code < 0x70000000:
+                what = 'p_type|%s(0x%x)' % (name, code)
+            out.append(synth('-l', what, r'c18000', segment_file(cls, le, m, code, 4)))
     for cls, le in CELLS:
         m = EM['X86_64'] if cls == 64 else EM['I386']
         for fl in list(range(8)) + [8, 0x00100000, 0x0ff00000, 0x10000000, 0xf0000000, 0xffffffff, 0xfffffff8]:
@@ -951,17 +1054,20 @@ def segment_cases():
 # ---- -s
 
 def symbol_file(cls, le, machine, st_info, st_other, st_shndx, value=0xc18, size=8, osabi=0, name='c18sym', dyn=False,
-                shndx_table=None):
-    blob, offs = W.build_strtab([name])
+                shndx_table=None, e_flags=None):
+    blob, offs = W.build_strtab([name, 'fill_a', 'fill_b'])
     syms = W.enc_sym(cls, le, 0, 0, 0, 0, 0, 0) + W.enc_sym(cls, le, offs[name], value, size, st_info, st_other, st_shndx)
+    syms += W.enc_sym(cls, le, offs['fill_a'], 0x1000, 4, 0x12, 0, 1) + W.enc_sym(cls, le, offs['fill_b'], 0, 0, 0x10, 0, 0)
     word = 4 if cls == 32 else 8
     secs = [text_sec(), sec('.dynstr' if dyn else '.strtab', SHT_STRTAB, data=blob),
             sec('.dynsym' if dyn else '.symtab', SHT_DYNSYM if dyn else SHT_SYMTAB, SHF_ALLOC if dyn else 0, link=2, info=1,
                 entsize=W.SYM_SIZE[cls], align=word, data=syms)]
     if shndx_table is not None:
         secs.append(sec('.symtab_shndx', SHT_SYMTAB_SHNDX, link=3, entsize=4, align=4,
-                        data=struct.pack(W.E(le) + '2I', *shndx_table)))
-    return elf_model(cls, le, machine, secs, osabi=osabi, e_flags=0x05000000 if machine == EM['ARM'] else 0)
+                        data=struct.pack(W.E(le) + '4I', *(list(shndx_table) + [0, 0]))))
+    if e_flags is None:
+        e_flags = 0x05000000 if machine == EM['ARM'] else 0
+    return elf_model(cls, le, machine, secs, osabi=osabi, e_flags=e_flags)
 
 
 def symbol_cases():
@@ -973,27 +1079,29 @@ def symbol_cases():
     machines = [('EM_X86_64', EM['X86_64'], 64, 0), ('EM_ARM', EM['ARM'], 32, 0), ('EM_386', EM['I386'], 32, 3)]
     for mname, m, cls, osabi in machines:
         for t in range(16):
-            out.append(synth('-s', 'st_type|m=%s|osabi=%d|%s(%d)' % (mname, osabi, tnames.get(t, 'unnamed'), t), r'c18sym',
+            out.append(synth('-s', ('st_type|%s(%d)' % (tnames.get(t, 'unnamed'), t)) if t < 10 else
+                             ('st_type|m=%s|osabi=%d|%s(%d)' % (mname, osabi, tnames.get(t, 'unnamed'), t)), r'c18sym',
                              symbol_file(cls, True, m, (1 << 4) | t, 0, 1, osabi=osabi)))
         for b in range(16):
-            out.append(synth('-s', 'st_bind|m=%s|osabi=%d|%s(%d)' % (mname, osabi, bnames.get(b, 'unnamed'), b), r'c18sym',
+            out.append(synth('-s', ('st_bind|%s(%d)' % (bnames.get(b, 'unnamed'), b)) if b < 10 else
+                             ('st_bind|m=%s|osabi=%d|%s(%d)' % (mname, osabi, bnames.get(b, 'unnamed'), b)), r'c18sym',
                              symbol_file(cls, True, m, (b << 4) | 1, 0, 1, osabi=osabi)))
     for mname, m, cls in (('EM_X86_64', EM['X86_64'], 64), ('EM_386', EM['I386'], 32)):
         for v in range(8):
-            out.append(synth('-s', 'st_visibility|m=%s|%s(%d)' % (mname, vnames.get(v, 'unnamed'), v), r'c18sym',
+            out.append(synth('-s', 'st_visibility|%s(%d)' % (vnames.get(v, 'unnamed'), v), r'c18sym',
                              symbol_file(cls, cls == 64, m, 0x12, v, 1)))
-    for mname, m, cls in (('EM_PPC64', EM['PPC64'], 64), ('EM_X86_64', EM['X86_64'], 64)):
-        for hi in range(1, 8):
-            out.append(synth('-s', 'st_other_local|m=%s|0x%x' % (mname, hi << 5), r'c18sym',
-                             symbol_file(cls, mname != 'EM_PPC64' or hi % 2 == 0, m, 0x12, hi << 5, 1)))
-        for v in (0x08, 0x10, 0x18, 0x1b):
-            out.append(synth('-s', 'st_other_reserved|m=%s|0x%x' % (mname, v), r'c18sym', symbol_file(cls, True, m, 0x12, v, 1)))
-    sh = [(0, 'SHN_UNDEF'), (1, 'index'), (3, 'index_last'), (0xfff1, 'SHN_ABS'), (0xfff2, 'SHN_COMMON'), (0xff00, 'SHN_LOPROC'),
-          (0xff01, 'proc'), (0xff02, 'proc'), (0xff1f, 'SHN_HIPROC'), (0xff20, 'SHN_LOOS'), (0xff3f, 'SHN_HIOS'), (0xff40, 'reserved'),
-          (0xfff0, 'reserved')]
+    # st_other bits 5-7: the clone describes them (describe_symbol_local) as the PPC64 ELFv2 local entry offset; values 1..6
+    # are assigned by that psABI, so only PPC64 files carry them here (other machines give the bits other meanings)
+    for hi in range(1, 7):
+        for vis in (0, 2):
+            out.append(synth('-s', 'st_other_local|m=EM_PPC64|%d' % hi, r'c18sym',
+                             symbol_file(64, hi % 2 == 0, EM['PPC64'], 0x12, (hi << 5) | vis, 1, e_flags=2)))
+    # section index column: the clone's table (UND/ABS/COM), ordinary indices; reserved processor/OS indices are features
+    # the clone does not claim to describe
+    sh = [(0, 'SHN_UNDEF'), (1, 'index'), (3, 'index_last'), (0xfff1, 'SHN_ABS'), (0xfff2, 'SHN_COMMON')]
     for mname, m, cls in (('EM_X86_64', EM['X86_64'], 64), ('EM_MIPS', EM['MIPS'], 32), ('EM_386', EM['I386'], 32)):
         for code, name in sh:
-            out.append(synth('-s', 'st_shndx|m=%s|%s(0x%x)' % (mname, name, code), r'c18sym',
+            out.append(synth('-s', 'st_shndx|%s(0x%x)' % (name, code), r'c18sym',
                              symbol_file(cls, True, m, 0x11, 0, code)))
     for cls, le in CELLS:
         m = EM['X86_64'] if cls == 64 else EM['I386']
@@ -1013,28 +1121,43 @@ def symbol_cases():
 
 # ---- -d
 
-def dyn_model(cls, le, machine, tags, osabi=0, e_type=3, with_segment=False, strings=('libc18.so.1',)):
-    """tags: [(tag, val | ('str', name))]; DT_NULL is appended."""
+def dyn_model(cls, le, machine, tags, osabi=0, e_type=3, with_segment=True, strings=('libc18.so.1',)):
+    """tags: [(tag, val | ('str', name))]; DT_STRTAB/DT_STRSZ (when with_segment) and DT_NULL are appended.
+    with_segment: PT_LOAD maps the whole file at vaddr == file offset, PT_DYNAMIC covers .dynamic."""
     blob, offs = W.build_strtab(list(strings))
-    dyn = b''
-    for t, v in tags:
-        if isinstance(v, (tuple, list)):
-            v = offs[v[1]]
-        dyn += W.enc_dyn(cls, le, t if t < (1 << 63) else t - (1 << 64), v)
-    dyn += W.enc_dyn(cls, le, 0, 0)
     word = 4 if cls == 32 else 8
-    secs = [text_sec(), sec('.dynstr', SHT_STRTAB, SHF_ALLOC, addr=0x2000, data=blob),
-            sec('.dynamic', SHT_DYNAMIC, SHF_ALLOC | SHF_WRITE, addr=0x3000, link=2, entsize=W.DYN_SIZE[cls], align=word, data=dyn)]
-    segs = []
-    if with_segment:
-        segs = [{'p_type': PT_LOAD, 'p_flags': 5, 'p_offset': 0, 'p_vaddr': 0, 'p_paddr': 0, 'p_filesz': ['file_len', 0],
-                 'p_memsz': ['file_len', 0], 'p_align': 0x1000},
-                {'p_type': PT_DYNAMIC, 'p_flags': 6, 'p_offset': ['sec_off', 3, 0], 'p_vaddr': 0x3000, 'p_paddr': 0x3000,
-                 'p_filesz': ['sec_size', 3, 0], 'p_memsz': ['sec_size', 3, 0], 'p_align': word}]
-    return elf_model(cls, le, machine, secs, segs, e_type=e_type, osabi=osabi, e_flags=0x05000000 if machine == EM['ARM'] else 0)
+
+    def build_model(addr):
+        dyn = b''
+        for t, v in tags:
+            if isinstance(v, (tuple, list)):
+                v = offs[v[1]]
+            dyn += W.enc_dyn(cls, le, t if t < (1 << 63) else t - (1 << 64), v)
+        if with_segment:
+            dyn += W.enc_dyn(cls, le, 5, addr[2]) + W.enc_dyn(cls, le, 10, len(blob))
+        dyn += W.enc_dyn(cls, le, 0, 0)
+        secs = [sec('.text', SHT_PROGBITS, SHF_ALLOC | SHF_EXECINSTR, addr=addr[1], align=4, data=b'\x90\x90\x90\xc3', file_align=4),
+                sec('.dynstr', SHT_STRTAB, SHF_ALLOC, addr=addr[2], data=blob),
+                sec('.dynamic', SHT_DYNAMIC, SHF_ALLOC | SHF_WRITE, addr=addr[3], link=2, entsize=W.DYN_SIZE[cls], align=word,
+                    data=dyn, file_align=8)]
+        segs = []
+        if with_segment:
+            segs = [{'p_type': PT_LOAD, 'p_flags': 7, 'p_offset': 0, 'p_vaddr': 0, 'p_paddr': 0, 'p_filesz': ['file_len', 0],
+                     'p_memsz': ['file_len', 0], 'p_align': 0x1000},
+                    {'p_type': PT_DYNAMIC, 'p_flags': 6, 'p_offset': ['sec_off', 3, 0], 'p_vaddr': ['sec_off', 3, 0],
+                     'p_paddr': ['sec_off', 3, 0], 'p_filesz': ['sec_size', 3, 0], 'p_memsz': ['sec_size', 3, 0], 'p_align': word}]
+        return elf_model(cls, le, machine, secs, segs, e_type=e_type, osabi=osabi,
+                         e_flags=0x05000000 if machine == EM['ARM'] else 0)
+
+    if not with_segment:
+        return build_model([0, 0x1000, 0x2000, 0x3000])
+    _d, R = W.build(build_model([0] * 4))
+    return build_model([h['sh_offset'] for h in R['sh'][:4]])
 
 
 STRING_TAGS = (1, 14, 15, 29, 0x7ffffffd, 0x7fffffff, 0x6ffffefa, 0x6ffffefb, 0x6ffffefc, 0x6000000d, 0x6000000f)
+# realistic values for tags whose value is not an address/size: flags words with named bits only, value-less marker tags = 0
+TAG_VALUES = {16: 0, 22: 0, 24: 0, 21: 0, 20: 7, 30: 0x8, 0x6ffffffb: 0x1, 0x70000005: 0x3}
 
 
 def dynamic_cases():
@@ -1053,26 +1176,27 @@ def dynamic_cases():
                 mm = m if not (cname == 'generic' and cls == 32) else EM['I386']
                 le = (n % 4 != 3) if cname == 'EM_MIPS' else True
                 n += 1
-                val = ('str', 'libc18.so.1') if code in STRING_TAGS else 0x1c18
-                if code == 20:
-                    val = 7
-                out.append(synth('-d', 'd_tag|%s|c=%d|%s(0x%x)' % (cname, cls, name, code), r'^\s*0x0*%x\s' % code,
-                                 dyn_model(cls, le, mm, [(code, val)], osabi=osabi)))
-    for code in (39, 0x60000001, 0x6ffffdf4, 0x6ffffffd - 0x100, 0x70000000, 0x70000001, 0x7ffffffe):
-        out.append(synth('-d', 'd_tag|generic|c=64|unnamed(0x%x)' % code, r'^\s*0x0*%x\s' % code,
-                         dyn_model(64, True, EM['X86_64'], [(code, 0x1c18)])))
+                val = ('str', 'libc18.so.1') if (code in STRING_TAGS or (cname == 'EM_MIPS' and code == 0x70000004)) else 0x1c18
+                if not (cname == 'EM_AARCH64' and code == 0x70000005):
+                    val = TAG_VALUES.get(code, val)
+                fill = [(12, 0x40), (13, 0x44)]
+                out.append(synth('-d', 'd_tag|%s|%s(0x%x)' % (cname, name, code), r'^\s*0x0*%x\s' % code,
+                                 dyn_model(cls, le, mm, [(code, val)] + fill, osabi=osabi)))
+    for code in (39, 0x70000001):      # a code nobody names: the fall-through of describe_dyn_tag
+        out.append(synth('-d', 'd_tag|generic|unnamed(0x%x)' % code, r'^\s*0x0*%x\s' % code,
+                         dyn_model(64, True, EM['X86_64'], [(code, 0x1c18), (12, 0x40), (13, 0x44)])))
     fl = [v for v, _n in uniq_codes(en.ENUM_DT_FLAGS)]
-    for v in [0] + fl + [0x20, 0x1f, 0x3, 0x80000000]:
-        out.append(synth('-d', 'dt_flags|0x%x' % v, r'^\s*0x0*1e\s', dyn_model(64, True, EM['X86_64'], [(30, v)])))
+    for v in [0] + fl + [0x1f, 0x3]:
+        out.append(synth('-d', 'dt_flags|0x%x' % v, r'^\s*0x0*1e\s', dyn_model(64, True, EM['X86_64'], [(30, v), (12, 0x40), (13, 0x44)])))
     fl1 = [v for v, _n in uniq_codes(en.ENUM_DT_FLAGS_1)]
-    for v in [0] + fl1 + [0x10000000, 0x80000000, 0x3, 0x08000001, 0x0fffffff]:
-        out.append(synth('-d', 'dt_flags_1|0x%x' % v, r'^\s*0x0*6ffffffb\s', dyn_model(64, True, EM['X86_64'], [(0x6ffffffb, v)], e_type=2)))
+    for v in [0] + fl1 + [0x3, 0x08000001, 0x0fffffff]:
+        out.append(synth('-d', 'dt_flags_1|0x%x' % v, r'^\s*0x0*6ffffffb\s', dyn_model(64, True, EM['X86_64'], [(0x6ffffffb, v), (12, 0x40), (13, 0x44)], e_type=2)))
     rh = sorted(set(v for k, v in vars(co.RH_FLAGS).items() if k.startswith('RHF_')))
-    for v in rh + [0x8000, 0x3, 0x7fff]:
+    for v in rh + [0x3, 0x7fff]:
         for cls in (32,):
-            out.append(synth('-d', 'dt_mips_flags|0x%x' % v, r'^\s*0x0*70000005\s', dyn_model(cls, False, EM['MIPS'], [(0x70000005, v)])))
+            out.append(synth('-d', 'dt_mips_flags|0x%x' % v, r'^\s*0x0*70000005\s', dyn_model(cls, False, EM['MIPS'], [(0x70000005, v), (12, 0x40), (13, 0x44)])))
     for v in (7, 17, 0, 5):
-        out.append(synth('-d', 'dt_pltrel|%d' % v, r'^\s*0x0*14\s', dyn_model(64, True, EM['X86_64'], [(20, v)])))
+        out.append(synth('-d', 'dt_pltrel|%d' % v, r'^\s*0x0*14\s', dyn_model(64, True, EM['X86_64'], [(20, v), (12, 0x40), (13, 0x44)])))
     # value formats of the size/count style tags in both classes + several entries
     for cls, le in CELLS:
         m = EM['X86_64'] if cls == 64 else EM['I386']
@@ -1105,59 +1229,71 @@ def note_cases():
         m = EM['X86_64'] if cls == 64 else EM['I386']
         for code, name in uniq_codes(en.ENUM_NOTE_ABI_TAG_OS) + [(6, 'unnamed'), (0x100, 'unnamed')]:
             desc = struct.pack(e(le) + '4I', code, 2, 6, 32)
-            out.append(synth('-n', 'note_abi_tag_os|c=%d|%s(%d)' % (cls, name, code), r'.',
+            out.append(synth('-n', 'note_abi_tag_os|%s(%d)' % (name, code), r'.',
                              note_file(cls, le, m, [W.enc_note(le, b'GNU\0', desc, 1)], '.note.ABI-tag')))
-        out.append(synth('-n', 'note_type|c=%d|NT_GNU_HWCAP(2)' % cls, r'.',
+        out.append(synth('-n', 'note_type|NT_GNU_HWCAP(2)', r'.',
                          note_file(cls, le, m, [W.enc_note(le, b'GNU\0', struct.pack(e(le) + 'II', 1, 2) + b'\0hw\0', 2)])))
-        for blen in (20, 16, 8, 1, 0, 33):
-            out.append(synth('-n', 'note_type|c=%d|NT_GNU_BUILD_ID(3)|len=%d' % (cls, blen), r'.',
+        for blen in (20, 16, 8, 1, 33):
+            out.append(synth('-n', 'note_type|NT_GNU_BUILD_ID(3)|len=%d' % blen, r'.',
                              note_file(cls, le, m, [W.enc_note(le, b'GNU\0', bytes(range(0xa0, 0xa0 + blen)), 3)], '.note.gnu.build-id')))
-        out.append(synth('-n', 'note_type|c=%d|NT_GNU_GOLD_VERSION(4)' % cls, r'.',
-                         note_file(cls, le, m, [W.enc_note(le, b'GNU\0', b'gold 1.18\0', 4)], '.note.gnu.gold-version')))
-        for t in (0, 6, 0x100, 0xffffffff):
-            out.append(synth('-n', 'note_type|c=%d|GNU|unnamed(0x%x)' % (cls, t), r'.',
+        out.append(synth('-n', 'note_type|NT_GNU_GOLD_VERSION(4)', r'.',
+                         note_file(cls, le, m, [W.enc_note(le, b'GNU\0', b'gold 1.18', 4)], '.note.gnu.gold-version')))
+        for t in (0, 6, 0x7f):
+            out.append(synth('-n', 'note_type|GNU|unnamed(0x%x)' % t, r'.',
                              note_file(cls, le, m, [W.enc_note(le, b'GNU\0', b'\x01\x02\x03\x04', t)])))
-        for owner in (b'c18owner\0', b'Android\0', b'FreeBSD\0', b'stapsdt\0', b'Go\0', b'XYZ\0'):
-            for t in (1, 3, 5):
-                d = struct.pack(e(le) + 'I', 0x18) + b'r25\0' + b'\0' * 8 if owner == b'Android\0' else b'\xc1\x80\x00\x01'
-                out.append(synth('-n', 'note_owner|c=%d|%s|type=%d' % (cls, owner[:-1].decode(), t), r'.',
-                                 note_file(cls, le, m, [W.enc_note(le, owner, d, t)])))
-    # GNU properties
+        # the one foreign owner the clone claims to describe
+        d = struct.pack(e(le) + 'I', 0x18) + b'r25\0' + b'\0' * 8
+        out.append(synth('-n', 'note_owner|Android|type=1', r'.', note_file(cls, le, m, [W.enc_note(le, b'Android\0', d, 1)], '.note.android.ident')))
+    # GNU properties: every type of the clone's table with every bit of the clone's bit tables (and 0, and all of them);
+    # data lengths are the ones the property ABI prescribes
     word = lambda cls: 'I' if cls == 32 else 'Q'
+    bits = lambda table: [mk for mk, _t in table]
     props = []
     for cls, le, mname, m in ((64, True, 'EM_X86_64', EM['X86_64']), (32, True, 'EM_386', EM['I386'])):
-        props.append((cls, le, mname, m, 'STACK_SIZE', 1, [struct.pack(e(le) + word(cls), v) for v in (0, 0x800000, 1)] + [b'\x01\x02']))
-        props.append((cls, le, mname, m, 'NO_COPY_ON_PROTECTED', 2, [b'', b'\x01\0\0\0']))
-        for pname, pt, nbits in (('X86_FEATURE_1_AND', 0xc0000002, 6), ('X86_ISA_1_NEEDED', 0xc0008002, 6),
-                                 ('X86_FEATURE_2_USED', 0xc0010001, 12), ('X86_ISA_1_USED', 0xc0010002, 6)):
-            vals = [0] + [1 << b for b in range(nbits)] + [3, 0x3f, 0x80000000]
-            props.append((cls, le, mname, m, pname, pt, [struct.pack(e(le) + 'I', v) for v in vals] + [b'\x01\0']))
-        for pname, pt in (('unnamed_generic', 3), ('unnamed_proc', 0xc0000001), ('unnamed_user', 0xe0000001), ('unnamed_x86_compat', 0xc0000000)):
-            props.append((cls, le, mname, m, pname, pt, [b'\x01\x02\x03\x04', b'']))
-    for mname, m, le in (('EM_AARCH64', EM['AARCH64'], True), ('EM_RISCV', EM['RISCV'], True), ('EM_AARCH64', EM['AARCH64'], False)):
+        props.append((cls, le, mname, m, 'STACK_SIZE', 1, [struct.pack(e(le) + word(cls), v) for v in (0, 0x800000, 1)]))
+        props.append((cls, le, mname, m, 'NO_COPY_ON_PROTECTED', 2, [b'']))
+        for pname, pt, table in (('X86_FEATURE_1_AND', 0xc0000002, de._DESCR_NOTE_GNU_PROPERTY_X86_FEATURE_1_FLAGS),
+                                 ('X86_ISA_1_NEEDED', 0xc0008002, de._DESCR_NOTE_GNU_PROPERTY_X86_ISA_1_FLAGS),
+                                 ('X86_FEATURE_2_USED', 0xc0010001, de._DESCR_NOTE_GNU_PROPERTY_X86_FEATURE_2_FLAGS),
+                                 ('X86_ISA_1_USED', 0xc0010002, de._DESCR_NOTE_GNU_PROPERTY_X86_ISA_1_FLAGS)):
+            b = bits(table)
+            allb = 0
+            for x in b:
+                allb |= x
+            vals = [0] + b + ([allb] if len(b) > 1 else [])
+            props.append((cls, le, mname, m, pname, pt, [struct.pack(e(le) + 'I', v) for v in vals]))
+        for pname, pt in (('unnamed_generic', 3), ('unnamed_proc', 0xc0000f00), ('unnamed_user', 0xe0000001),
+                          ('AARCH64_FEATURE_1_AND_on_x86', 0xc0000000)):
+            props.append((cls, le, mname, m, pname, pt, [b'\x01\x02\x03\x04']))
+    for mname, m, le, table in (('EM_AARCH64', EM['AARCH64'], True, de._DESCR_NOTE_GNU_PROPERTY_AARCH64_FEATURE_1_AND),
+                                ('EM_RISCV', EM['RISCV'], True, de._DESCR_NOTE_GNU_PROPERTY_RISCV_FEATURE_1_AND),
+                                ('EM_AARCH64', EM['AARCH64'], False, de._DESCR_NOTE_GNU_PROPERTY_AARCH64_FEATURE_1_AND)):
+        b = bits(table)
         props.append((64, le, mname, m, 'AARCH64_FEATURE_1_AND', 0xc0000000,
-                      [struct.pack(e(le) + 'I', v) for v in (0, 1, 2, 3, 4, 8, 0x80000000, 7)] + [b'\x01']))
-        props.append((64, le, mname, m, 'unnamed_proc', 0xc0000001, [b'\x01\0\0\0']))
+                      [struct.pack(e(le) + 'I', v) for v in [0] + b + [sum(b)]]))
+        props.append((64, le, mname, m, 'unnamed_proc', 0xc0000f00, [b'\x01\0\0\0']))
     for cls, le, mname, m, pname, pt, datas in props:
         for d in datas:
             desc = enc_prop(cls, le, pt, d)
-            out.append(synth('-n', 'gnu_property|m=%s|c=%d|le=%d|%s(0x%x)|data=%s' % (mname, cls, le, pname, pt, d.hex() or '-'), r'.',
-                             note_file(cls, le, m, [W.enc_note(le, b'GNU\0', desc, 5, align=4 if cls == 32 else 8)],
+            val = int.from_bytes(d, 'little' if le else 'big') if d else 0
+            mq = ('m=%s|' % mname) if pt == 0xc0000000 else ''
+            out.append(synth('-n', 'gnu_property|%s%s(0x%x)|value=0x%x' % (mq, pname, pt, val), r'.',
+                             note_file(cls, le, m, [W.enc_note(le, b'GNU\0', desc, 5)],
                                        '.note.gnu.property', align=4 if cls == 32 else 8)))
     # two properties in one note, two notes in one section, two note sections
     for cls, le in ((64, True), (32, True)):
         m = EM['X86_64'] if cls == 64 else EM['I386']
         al = 4 if cls == 32 else 8
         desc = enc_prop(cls, le, 0xc0000002, struct.pack(e(le) + 'I', 3)) + enc_prop(cls, le, 0xc0008002, struct.pack(e(le) + 'I', 1))
-        out.append(synth('-n', 'gnu_property|c=%d|two_properties' % cls, r'.',
-                         note_file(cls, le, m, [W.enc_note(le, b'GNU\0', desc, 5, align=al)], '.note.gnu.property', align=al)))
+        out.append(synth('-n', 'gnu_property|two_properties', r'.',
+                         note_file(cls, le, m, [W.enc_note(le, b'GNU\0', desc, 5)], '.note.gnu.property', align=al)))
         two = [W.enc_note(le, b'GNU\0', struct.pack(e(le) + '4I', 0, 3, 2, 0), 1), W.enc_note(le, b'GNU\0', bytes(range(20)), 3)]
-        out.append(synth('-n', 'notes|c=%d|two_in_one_section' % cls, r'.', note_file(cls, le, m, two)))
+        out.append(synth('-n', 'notes|two_in_one_section', r'.', note_file(cls, le, m, two)))
         mm = note_file(cls, le, m, two[:1], '.note.ABI-tag')
         mm['sections'].insert(3, sec('.note.gnu.build-id', SHT_NOTE, SHF_ALLOC, addr=0x3000, align=4, data=two[1]))
         mm['shstrndx'] += 1
-        out.append(synth('-n', 'notes|c=%d|two_sections' % cls, r'.', mm))
-        out.append(synth('-n', 'notes|c=%d|none' % cls, r'.', elf_model(cls, le, m, [text_sec()])))
+        out.append(synth('-n', 'notes|two_sections', r'.', mm))
+        out.append(synth('-n', 'notes|none', r'.', elf_model(cls, le, m, [text_sec()])))
     return out
 
 
@@ -1209,10 +1345,10 @@ def reloc_cases():
                         other = codes[(n * 7) % (len(codes) - 1)][0]
                         rt = (code, other if code else 0, code if n % 2 else 0)
                         model = reloc_file(cls, le, m, rt, rela, mips64=True, e_flags=ef)
-                        what = 'reloc|m=%s|c=%d|%s|%s(%d)+type2=%d+type3=%d' % (mname, cls, 'rela' if rela else 'rel', name, code, rt[1], rt[2])
+                        what = 'reloc|m=%s|%s(%d)' % (mname, name, code)
                     else:
                         model = reloc_file(cls, le, m, code, rela, e_flags=ef)
-                        what = 'reloc|m=%s|c=%d|%s|%s(%d)' % (mname, cls, 'rela' if rela else 'rel', name, code)
+                        what = 'reloc|m=%s|%s(%d)' % (mname, name, code)
                     out.append(synth('-r', what, r'^0*c1[8c]\s', model))
     # a machine the clone has no table for, and a file without relocations
     out.append(synth('-r', 'reloc|m=EM_SPARC|c=32|rela|no_table(1)', r'^0*c1[8c]\s', reloc_file(32, False, 2, 1, True)))
@@ -1239,30 +1375,45 @@ def enc_vernaux(le, hsh, flags, other, name, nxt):
 
 
 def version_file(cls, le, machine, def_flags, need_flags, with_versym_tag=True):
-    names = ['libc18.so.1', 'c18sym', 'C18VER_1.0', 'C18VER_2.0', 'C18NEED_1.0', 'libneed.so.2']
+    """A small shared object: .dynstr .dynsym .gnu.version .gnu.version_d .gnu.version_r .dynamic, one PT_LOAD that maps
+    the whole file at vaddr == file offset and a PT_DYNAMIC, so that GNU readelf can follow the DT_* addresses."""
+    names = ['libc18.so.1', 'c18sym', 'C18VER_1.0', 'C18VER_2.0', 'C18NEED_1.0', 'libneed.so.2', 'c18und']
     blob, offs = W.build_strtab(names)
     word = 4 if cls == 32 else 8
-    syms = (W.enc_sym(cls, le, 0, 0, 0, 0, 0, 0) + W.enc_sym(cls, le, offs['c18sym'], 0x1000, 4, 0x12, 0, 1) +
-            W.enc_sym(cls, le, offs['C18VER_1.0'], 0, 0, 0x11, 0, 0xfff1))
-    versym = struct.pack(W.E(le) + '3H', 0, 2, 3)
-    # definitions: index 1 (base, the file), index 2 with the flags under test and a parent
+    syms = (W.enc_sym(cls, le, 0, 0, 0, 0, 0, 0) + W.enc_sym(cls, le, offs['c18sym'], 0x40, 4, 0x12, 0, 1) +
+            W.enc_sym(cls, le, offs['C18VER_1.0'], 0, 0, 0x11, 0, 0xfff1) + W.enc_sym(cls, le, offs['c18und'], 0, 0, 0x12, 0, 0))
+    versym = struct.pack(W.E(le) + '4H', 0, 2, 1, 3)
+    # definitions: index 1 (base, the file), index 2 with the flags under test and a parent; need: index 3
     vd = (enc_verdef(le, 1, 1, 1, 1, W.sysv_hash(b'libc18.so.1'), 20, 28) + enc_verdaux(le, offs['libc18.so.1'], 0) +
           enc_verdef(le, 1, def_flags, 2, 2, W.sysv_hash(b'C18VER_2.0'), 20, 0) + enc_verdaux(le, offs['C18VER_2.0'], 8) +
           enc_verdaux(le, offs['C18VER_1.0'], 0))
     vn = (enc_verneed(le, 1, 1, offs['libneed.so.2'], 16, 0) +
           enc_vernaux(le, W.sysv_hash(b'C18NEED_1.0'), need_flags, 3, offs['C18NEED_1.0'], 0))
-    tags = [(0x6ffffffc, 0x4000), (0x6ffffffd, 2), (0x6ffffffe, 0x5000), (0x6fffffff, 1)]
-    if with_versym_tag:
-        tags.insert(0, (0x6ffffff0, 0x3000))
-    dyn = b''.join(W.enc_dyn(cls, le, t, v) for t, v in tags) + W.enc_dyn(cls, le, 0, 0)
-    secs = [text_sec(),
-            sec('.dynstr', SHT_STRTAB, SHF_ALLOC, addr=0x2000, data=blob),
-            sec('.dynsym', SHT_DYNSYM, SHF_ALLOC, addr=0x2800, link=2, info=1, entsize=W.SYM_SIZE[cls], align=word, data=syms),
-            sec('.gnu.version', SHT_GNU_versym, SHF_ALLOC, addr=0x3000, link=3, entsize=2, align=2, data=versym),
-            sec('.gnu.version_d', SHT_GNU_verdef, SHF_ALLOC, addr=0x4000, link=2, info=2, align=word, data=vd),
-            sec('.gnu.version_r', SHT_GNU_verneed, SHF_ALLOC, addr=0x5000, link=2, info=1, align=word, data=vn),
-            sec('.dynamic', SHT_DYNAMIC, SHF_ALLOC | SHF_WRITE, addr=0x6000, link=2, entsize=W.DYN_SIZE[cls], align=word, data=dyn)]
-    return elf_model(cls, le, machine, secs, e_type=3)
+
+    def dyn_bytes(addr):
+        tags = [(1, offs['libneed.so.2']), (14, offs['libc18.so.1']), (5, addr[2]), (10, len(blob)), (6, addr[3]),
+                (11, W.SYM_SIZE[cls]), (0x6ffffffc, addr[5]), (0x6ffffffd, 2), (0x6ffffffe, addr[6]), (0x6fffffff, 1)]
+        if with_versym_tag:
+            tags.append((0x6ffffff0, addr[4]))
+        return b''.join(W.enc_dyn(cls, le, t, v) for t, v in tags) + W.enc_dyn(cls, le, 0, 0)
+
+    def build_model(addr):
+        secs = [sec('.text', SHT_PROGBITS, SHF_ALLOC | SHF_EXECINSTR, addr=addr[1], align=4, data=b'\x90\x90\x90\xc3', file_align=4),
+                sec('.dynstr', SHT_STRTAB, SHF_ALLOC, addr=addr[2], data=blob),
+                sec('.dynsym', SHT_DYNSYM, SHF_ALLOC, addr=addr[3], link=2, info=1, entsize=W.SYM_SIZE[cls], align=word, data=syms, file_align=8),
+                sec('.gnu.version', SHT_GNU_versym, SHF_ALLOC, addr=addr[4], link=3, entsize=2, align=2, data=versym, file_align=2),
+                sec('.gnu.version_d', SHT_GNU_verdef, SHF_ALLOC, addr=addr[5], link=2, info=2, align=word, data=vd, file_align=8),
+                sec('.gnu.version_r', SHT_GNU_verneed, SHF_ALLOC, addr=addr[6], link=2, info=1, align=word, data=vn, file_align=8),
+                sec('.dynamic', SHT_DYNAMIC, SHF_ALLOC | SHF_WRITE, addr=addr[7], link=2, entsize=W.DYN_SIZE[cls], align=word,
+                    data=dyn_bytes(addr), file_align=8)]
+        segs = [{'p_type': PT_LOAD, 'p_flags': 7, 'p_offset': 0, 'p_vaddr': 0, 'p_paddr': 0, 'p_filesz': ['file_len', 0],
+                 'p_memsz': ['file_len', 0], 'p_align': 0x1000},
+                {'p_type': PT_DYNAMIC, 'p_flags': 6, 'p_offset': ['sec_off', 7, 0], 'p_vaddr': ['sec_off', 7, 0],
+                 'p_paddr': ['sec_off', 7, 0], 'p_filesz': ['sec_size', 7, 0], 'p_memsz': ['sec_size', 7, 0], 'p_align': word}]
+        return elf_model(cls, le, machine, secs, segs, e_type=3)
+
+    _d, R = W.build(build_model([0] * 8))
+    return build_model([h['sh_offset'] for h in R['sh'][:8]])
 
 
 def version_cases():
@@ -1270,12 +1421,12 @@ def version_cases():
     for cls, le in CELLS:
         m = EM['X86_64'] if cls == 64 else EM['I386']
         for f in (0, 1, 2, 3, 4, 5, 6, 7) if (cls, le) == (64, True) else (0, 2, 7):
-            out.append(synth('-V', 'ver_flags|c=%d|le=%d|verdef=0x%x' % (cls, le, f), r'index: 2 ', version_file(cls, le, m, f, 0)))
-            out.append(synth('-V', 'ver_flags|c=%d|le=%d|vernaux=0x%x' % (cls, le, f), r'c18need', version_file(cls, le, m, 0, f)))
+            out.append(synth('-V', 'ver_flags|0x%x' % f, r'index: 2 ', version_file(cls, le, m, f, 0)))
+            out.append(synth('-V', 'ver_flags|0x%x' % f, r'c18need', version_file(cls, le, m, 0, f)))
         out.append(synth('-V', 'ver_none|c=%d|le=%d' % (cls, le), r'.', elf_model(cls, le, m, [text_sec()])))
     for f in (8, 0x10, 0x8000, 0xffff, 9):
-        out.append(synth('-V', 'ver_flags|c=64|le=1|verdef=0x%x' % f, r'index: 2 ', version_file(64, True, EM['X86_64'], f, 0)))
-        out.append(synth('-V', 'ver_flags|c=64|le=1|vernaux=0x%x' % f, r'c18need', version_file(64, True, EM['X86_64'], 0, f)))
+        out.append(synth('-V', 'ver_flags|0x%x' % f, r'index: 2 ', version_file(64, True, EM['X86_64'], f, 0)))
+        out.append(synth('-V', 'ver_flags|0x%x' % f, r'c18need', version_file(64, True, EM['X86_64'], 0, f)))
     # the same sections under -s (versioned dynamic symbols) and -d
     for cls, le in ((64, True), (32, False)):
         m = EM['X86_64'] if cls == 64 else EM['I386']
@@ -1283,11 +1434,428 @@ def version_cases():
     return out
 
 
+# ---- --debug-dump=info : DW_TAG / DW_AT / DW_FORM / DW_LANG / DW_ATE / ... / DW_OP
+
+DW_TAG_compile_unit, DW_TAG_variable, DW_TAG_base_type, DW_TAG_subprogram = 0x11, 0x34, 0x24, 0x2e
+DW_AT_name, DW_AT_language, DW_AT_location, DW_AT_byte_size, DW_AT_encoding, DW_AT_type = 0x03, 0x13, 0x02, 0x0b, 0x3e, 0x49
+DW_AT_low_pc, DW_AT_const_value, DW_AT_stmt_list, DW_AT_signature, DW_AT_decl_line = 0x11, 0x1c, 0x10, 0x69, 0x3b
+
+
+def dw_elf(dwcase, cls=64, machine=None, extra=None):
+    from vf.enc import dwarf as D
+    w = D.InfoWriter(dwcase)
+    secs = [text_sec()]
+    sections = dict(w.sections)
+    sections.update(extra or {})
+    for name in sorted(sections):
+        secs.append(sec(name, SHT_PROGBITS, 0x30 if name in ('.debug_str', '.debug_line_str') else 0,
+                        entsize=1 if name in ('.debug_str', '.debug_line_str') else 0, data=sections[name]))
+    return elf_model(cls, dwcase['le'], machine if machine is not None else (EM['X86_64'] if cls == 64 else EM['I386']), secs)
+
+
+def dw_unit(child_abbrev, child_vals, version=4, fmt=32, addr_size=8, le=True, root_attrs=(), root_vals=(), aux=None, lang=1,
+            grandchild=None):
+    """One CU: root DW_TAG_compile_unit {name, language} + one child DIE (the entry under test, printed last)."""
+    root = {'code': 1, 'tag': DW_TAG_compile_unit, 'children': True,
+            'attrs': [[DW_AT_name, 'DW_FORM_string', None], [DW_AT_language, 'DW_FORM_udata', None]] + [list(a) for a in root_attrs]}
+    tab = [root, dict(child_abbrev, code=2)]
+    child = {'ab': 1, 'vals': list(child_vals), 'kids': []}
+    if grandchild:      # the entry sits inside a subprogram that has a frame base (DW_OP_call_frame_cfa)
+        tab.append({'code': 3, 'tag': DW_TAG_subprogram, 'children': True, 'attrs': [[0x40, 'DW_FORM_exprloc', None]]})
+        child = {'ab': 2, 'vals': [{'b': b'\x9c'}], 'kids': [child]}
+    unit = {'version': version, 'fmt': fmt, 'addr_size': addr_size, 'ut': 1, 'abtab': 0,
+            'die': {'ab': 0, 'vals': [{'s': b'c18.c'}, {'v': lang}] + list(root_vals), 'kids': [child]}}
+    if aux:
+        unit['aux'] = aux
+    return {'le': le, 'strs': [b'c18 string in .debug_str', b'second'], 'lstrs': [b'c18 line string'], 'abtabs': [tab], 'units': [unit]}
+
+
+OP_SAMPLE = {'A': 0x1000, 'O': 0x0b, 'u1': 1, 'u2': 0x102, 'u4': 0x1020304, 'u8': 0x102030405060708, 's1': -2, 's2': -300,
+             's4': -70000, 's8': -5000000000, 'U': 3, 'S': -4, 'B': b'\x01\x02', 'T': b'\x2a', 'E': [[0x31, []]]}
+
+
+def dwarf_cases():
+    core.use_repo()
+    import elftools.dwarf.enums as den
+    import elftools.dwarf.descriptions as dde
+    import elftools.dwarf.constants as dco
+    from elftools.dwarf.dwarf_expr import DW_OP_name2opcode
+    from vf.enc import c12_expr as X
+    out = []
+    opt = '--debug-dump=info'
+    mark = {'after': r'^\s*<1><'}
+    for code, name in uniq_codes(den.ENUM_DW_TAG):
+        if code == 0:
+            continue
+        out.append(synth(opt, 'dw_tag|%s(0x%x)' % (name, code), mark,
+                         dw_elf(dw_unit({'tag': code, 'children': False, 'attrs': []}, []))))
+    # attribute names: every DW_AT code with the form that fits it (expression for the location-like ones the clone
+    # decodes as expressions, a small constant otherwise)
+    exprlike = set(k for k, v in dde._EXTRA_INFO_DESCRIPTION_MAP.items() if v in (dde._location_list_extra, dde._data_member_location_extra))
+    enumerated = ('DW_AT_inline', 'DW_AT_language', 'DW_AT_encoding', 'DW_AT_accessibility', 'DW_AT_visibility', 'DW_AT_virtuality',
+                  'DW_AT_identifier_case', 'DW_AT_calling_convention', 'DW_AT_ordering')
+    for code, name in uniq_codes(den.ENUM_DW_AT):
+        if code == 0:
+            continue
+        first = name.split('/')[0]
+        if any(n in exprlike for n in name.split('/')):
+            ab, vals = {'tag': DW_TAG_variable, 'children': False, 'attrs': [[code, 'DW_FORM_exprloc', None]]}, [{'b': b'\x31'}]
+        elif first in ('DW_AT_decimal_sign', 'DW_AT_defaulted', 'DW_AT_endianity', 'DW_AT_discr_list') or first in enumerated:
+            continue     # constants GNU annotates from tables; the ones the clone has tables for are swept with their values below
+        elif first == 'DW_AT_import':
+            ab, vals = {'tag': 0x3a, 'children': False, 'attrs': [[code, 'DW_FORM_ref4', None]]}, [{'t': 0}]
+        else:
+            ab, vals = {'tag': DW_TAG_variable, 'children': False, 'attrs': [[code, 'DW_FORM_data1', None]]}, [{'v': 1}]
+        out.append(synth(opt, 'dw_at|%s(0x%x)' % (name, code), mark, dw_elf(dw_unit(ab, vals))))
+    # forms
+    forms = []
+    for fmt in (32, 64):
+        for ver, f, at, spec in [
+                (4, 'DW_FORM_addr', DW_AT_low_pc, {'v': 0x401000}), (4, 'DW_FORM_block2', DW_AT_const_value, {'b': b'\x01\x02\x03'}),
+                (4, 'DW_FORM_block4', DW_AT_const_value, {'b': b'\x01\x02\x03'}), (4, 'DW_FORM_data2', DW_AT_byte_size, {'v': 0x1234}),
+                (4, 'DW_FORM_data4', DW_AT_byte_size, {'v': 0x12345678}), (4, 'DW_FORM_data8', DW_AT_byte_size, {'v': 0x123456789abcdef0}),
+                (4, 'DW_FORM_string', DW_AT_name, {'s': b'c18 inline string'}), (4, 'DW_FORM_block', DW_AT_const_value, {'b': b'\x01\x02\x03'}),
+                (4, 'DW_FORM_block1', DW_AT_const_value, {'b': b'\x01\x02\x03'}), (4, 'DW_FORM_data1', DW_AT_byte_size, {'v': 0x12}),
+                (4, 'DW_FORM_flag', 0x3f, {'v': 1}), (4, 'DW_FORM_flag', 0x3f, {'v': 0}), (4, 'DW_FORM_sdata', DW_AT_const_value, {'v': -5}),
+                (4, 'DW_FORM_strp', DW_AT_name, {'si': 0}), (4, 'DW_FORM_udata', DW_AT_byte_size, {'v': 300}),
+                (4, 'DW_FORM_ref_addr', DW_AT_type, {'tu': 0, 't': 0}), (4, 'DW_FORM_ref1', DW_AT_type, {'t': 0}),
+                (4, 'DW_FORM_ref2', DW_AT_type, {'t': 0}), (4, 'DW_FORM_ref4', DW_AT_type, {'t': 0}), (4, 'DW_FORM_ref8', DW_AT_type, {'t': 0}),
+                (4, 'DW_FORM_ref_udata', DW_AT_type, {'t': 0}), (4, 'DW_FORM_sec_offset', DW_AT_stmt_list, {'v': 0}),
+                (4, 'DW_FORM_exprloc', DW_AT_location, {'b': b'\x31'}), (4, 'DW_FORM_flag_present', 0x3f, {}),
+                (4, 'DW_FORM_ref_sig8', DW_AT_signature, {'v': 0x1122334455667788}),
+                (4, 'DW_FORM_indirect', DW_AT_byte_size, {'chain': 1, 'form': 'DW_FORM_data2', 'val': {'v': 0x1234}}),
+                (5, 'DW_FORM_data16', DW_AT_const_value, {'b': bytes(range(16))}), (5, 'DW_FORM_line_strp', DW_AT_name, {'si': 0}),
+                (5, 'DW_FORM_implicit_const', DW_AT_decl_line, None),
+                (5, 'DW_FORM_strx', DW_AT_name, {'i': 1}), (5, 'DW_FORM_strx1', DW_AT_name, {'i': 1}), (5, 'DW_FORM_strx2', DW_AT_name, {'i': 0}),
+                (5, 'DW_FORM_strx3', DW_AT_name, {'i': 1}), (5, 'DW_FORM_strx4', DW_AT_name, {'i': 1}),
+                (5, 'DW_FORM_addrx', DW_AT_low_pc, {'i': 1}), (5, 'DW_FORM_addrx1', DW_AT_low_pc, {'i': 0}), (5, 'DW_FORM_addrx2', DW_AT_low_pc, {'i': 1}),
+                (5, 'DW_FORM_addrx3', DW_AT_low_pc, {'i': 1}), (5, 'DW_FORM_addrx4', DW_AT_low_pc, {'i': 1}),
+                (3, 'DW_FORM_data4', DW_AT_byte_size, {'v': 0x12345678}), (2, 'DW_FORM_ref_addr', DW_AT_type, {'tu': 0, 't': 0}),
+                (3, 'DW_FORM_strp', DW_AT_name, {'si': 1}), (5, 'DW_FORM_strp', DW_AT_name, {'si': 1}), (5, 'DW_FORM_exprloc', DW_AT_location, {'b': b'\x31'})]:
+            forms.append((fmt, ver, f, at, spec))
+    known_forms = set(k for k in den.ENUM_DW_FORM if isinstance(den.ENUM_DW_FORM[k], int))
+    for fmt, ver, f, at, spec in forms:
+        if f not in known_forms:
+            continue
+        ic = 42 if f == 'DW_FORM_implicit_const' else None
+        ab = {'tag': DW_TAG_variable, 'children': False, 'attrs': [[at, f, ic]]}
+        vals = [spec]
+        root_attrs, root_vals, aux = [], [], None
+        hdr = 8 if fmt == 32 else 16
+        if f.startswith('DW_FORM_strx'):
+            root_attrs, root_vals, aux = [[0x72, 'DW_FORM_sec_offset', None]], [{'v': hdr}], {'strx': [0, 1]}
+        if f.startswith('DW_FORM_addrx'):
+            root_attrs, root_vals, aux = [[0x73, 'DW_FORM_sec_offset', None]], [{'v': hdr}], {'addrx': [0x401000, 0x402000]}
+        for asz, cls, le in ((8, 64, True), (4, 32, False)):
+            if fmt == 64 and cls == 32:
+                continue
+            out.append(synth(opt, 'dw_form|%s' % f, mark,
+                             dw_elf(dw_unit(ab, vals, version=ver, fmt=fmt, addr_size=asz, le=le, root_attrs=root_attrs,
+                                            root_vals=root_vals, aux=aux), cls=cls)))
+    # enumerated attribute values
+    for code, name in uniq_codes(den.ENUM_DW_LANG):
+        out.append(synth(opt, 'dw_lang|%s(0x%x)' % (name, code), {'after': r'dw_at_language'},
+                         dw_elf(dw_unit({'tag': DW_TAG_variable, 'children': False, 'attrs': []}, [], lang=code))))
+    for code, name in uniq_codes(den.ENUM_DW_ATE):
+        ab = {'tag': DW_TAG_base_type, 'children': False, 'attrs': [[DW_AT_byte_size, 'DW_FORM_data1', None], [DW_AT_encoding, 'DW_FORM_data1', None]]}
+        out.append(synth(opt, 'dw_ate|%s(0x%x)' % (name, code), mark, dw_elf(dw_unit(ab, [{'v': 4}, {'v': code}]))))
+    for at, tname, table in ((0x32, 'dw_access', dde._DESCR_DW_ACCESS), (0x17, 'dw_vis', dde._DESCR_DW_VIS),
+                             (0x4c, 'dw_virtuality', dde._DESCR_DW_VIRTUALITY), (0x42, 'dw_id_case', dde._DESCR_DW_ID_CASE),
+                             (0x36, 'dw_cc', dde._DESCR_DW_CC), (0x20, 'dw_inl', dde._DESCR_DW_INL), (0x09, 'dw_ord', dde._DESCR_DW_ORD)):
+        for code in sorted(table):
+            ab = {'tag': DW_TAG_subprogram, 'children': False, 'attrs': [[at, 'DW_FORM_data1', None]]}
+            out.append(synth(opt, '%s|%d' % (tname, code), mark, dw_elf(dw_unit(ab, [{'v': code}]))))
+    # operations: every opcode the library names and the independent table can encode, inside the DW_AT_location of a
+    # variable of a subprogram that has a frame base; register-based ones on every machine the clone has register names
+    # for, and only for register numbers that its table names
+    regtabs = {'EM_X86_64': dde._REG_NAMES_x64, 'EM_386': dde._REG_NAMES_x86, 'EM_AARCH64': dde._REG_NAMES_AArch64}
+    ab = {'tag': DW_TAG_variable, 'children': False, 'attrs': [[DW_AT_location, 'DW_FORM_exprloc', None]]}
+    for mname, m, cls, asz in (('EM_X86_64', EM['X86_64'], 64, 8), ('EM_386', EM['I386'], 32, 4), ('EM_AARCH64', EM['AARCH64'], 64, 8)):
+        tab = regtabs[mname]
+        for code in sorted(X.OPS):
+            name, spec = X.OPS[code]
+            if name not in DW_OP_name2opcode or 'X' in spec or 'W' in spec:
+                continue
+            regop = 0x50 <= code <= 0x8f
+            if mname != 'EM_X86_64' and not regop:
+                continue
+            if regop and ((code - 0x50) % 32 >= len(tab) or tab[(code - 0x50) % 32] == '<none>'):
+                continue
+            vals = [OP_SAMPLE[k] for k in spec]
+            if name in ('DW_OP_regx', 'DW_OP_bregx'):
+                vals[0] = 33
+            try:
+                b, _exp = X.encode_op([code, vals], True, 32, asz)
+            except X.EncodeError:
+                continue
+            what = 'dw_op|%s(0x%x)' % (name, code) if not regop else 'dw_op|m=%s|%s(0x%x)' % (mname, name, code)
+            out.append(synth(opt, what, mark, dw_elf(dw_unit(ab, [{'b': b}], addr_size=asz, le=True, grandchild=True), cls=cls, machine=m)))
+        # the register-name table itself, through DW_OP_regx
+        for n, rname in enumerate(tab):
+            if rname == '<none>' or n < 32:
+                continue
+            b, _exp = X.encode_op([0x90, [n]], True, 32, asz)
+            out.append(synth(opt, 'dw_reg|m=%s|%d' % (mname, n), mark,
+                             dw_elf(dw_unit(ab, [{'b': b}], addr_size=asz, le=True, grandchild=True), cls=cls, machine=m)))
+    return out
+
+
+# ---- --debug-dump=frames / frames-interp : every DW_CFA opcode the library names
+
+def cfi_section(le, asz, cie_instrs, fde_instrs, version=1, code_align=1, data_align=-8, ra=16, pc=0x401000, size=0x100):
+    """One CIE + one FDE of a .debug_frame section (DWARF v5 6.4.1, 7.24), 32-bit DWARF."""
+    from vf.enc.leb import uleb, sleb
+    bo = 'little' if le else 'big'
+
+    def entry(body):
+        body = bytes(body)
+        body += b'\0' * (-(4 + len(body)) % asz)          # DW_CFA_nop padding to a multiple of the address size
+        return len(body).to_bytes(4, bo) + body
+    cie = b'\xff\xff\xff\xff' + bytes([version]) + b'\0'
+    if version >= 4:
+        cie += bytes([asz, 0])
+    cie += uleb(code_align) + sleb(data_align) + (bytes([ra]) if version == 1 else uleb(ra)) + bytes(cie_instrs)
+    out = entry(cie)
+    fde = (0).to_bytes(4, bo) + pc.to_bytes(asz, bo) + size.to_bytes(asz, bo) + bytes(fde_instrs)
+    return out + entry(fde)
+
+
+def cfa_cases():
+    core.use_repo()
+    import elftools.dwarf.constants as dco
+    from vf.enc.leb import uleb, sleb
+    names = {}
+    for k, v in vars(dco).items():
+        if k.startswith('DW_CFA_') and isinstance(v, int):
+            names.setdefault(v, []).append(k)
+    out = []
+    U, S = uleb, sleb
+    expr = b'\x77\x08'          # DW_OP_breg7: 8
+    adv = b'\x44'               # DW_CFA_advance_loc: 4
+    for mname, m, cls, asz, le, da, ra, rA, rB, cfa_reg in (('EM_X86_64', EM['X86_64'], 64, 8, True, -8, 16, 3, 12, 7),
+                                                           ('EM_386', EM['I386'], 32, 4, True, -4, 8, 3, 6, 4),
+                                                           ('EM_AARCH64', EM['AARCH64'], 64, 8, True, -8, 30, 19, 20, 31)):
+        def addr(v):
+            return v.to_bytes(asz, 'little' if le else 'big')
+        seqs = {
+            0x40: adv, 0x80: adv + bytes([0x80 | rA]) + U(2), 0xc0: adv + bytes([0x80 | rA]) + U(2) + adv + bytes([0xc0 | rA]),
+            0x00: adv + b'\0' + adv, 0x01: b'\x01' + addr(0x401010), 0x02: b'\x02\x10', 0x03: b'\x03' + (0x110).to_bytes(2, 'little'),
+            0x04: b'\x04' + (0x10000).to_bytes(4, 'little'), 0x05: adv + b'\x05' + U(rA) + U(2),
+            0x06: adv + b'\x05' + U(rA) + U(2) + adv + b'\x06' + U(rA), 0x07: adv + b'\x07' + U(rA), 0x08: adv + b'\x08' + U(rA),
+            0x09: adv + b'\x09' + U(rA) + U(rB) + adv, 0x0a: adv + b'\x0a' + adv + b'\x0e' + U(32) + adv + b'\x0b',
+            0x0b: adv + b'\x0a' + adv + b'\x0e' + U(48) + adv + b'\x0b' + adv, 0x0c: adv + b'\x0c' + U(rB) + U(16),
+            0x0d: adv + b'\x0d' + U(rB), 0x0e: adv + b'\x0e' + U(16), 0x0f: adv + b'\x0f' + U(len(expr)) + expr,
+            0x10: adv + b'\x10' + U(rA) + U(len(expr)) + expr, 0x11: adv + b'\x11' + U(rA) + S(-2), 0x12: adv + b'\x12' + U(rB) + S(-2),
+            0x13: adv + b'\x13' + S(-2), 0x14: adv + b'\x14' + U(rA) + U(2), 0x15: adv + b'\x15' + U(rA) + S(-2),
+            0x16: adv + b'\x16' + U(rA) + U(len(expr)) + expr, 0x2d: adv + b'\x2d', 0x2e: adv + b'\x2e' + U(16),
+            0x2f: adv + b'\x2f' + U(rA) + U(2), 0x1d: b'\x1d' + (0x20).to_bytes(8, 'little'),
+        }
+        cie_instrs = b'\x0c' + U(cfa_reg) + U(-da) + bytes([0x80 | ra]) + U(1)
+        info = dw_unit({'tag': DW_TAG_variable, 'children': False, 'attrs': []}, [], addr_size=asz, le=le)
+        for code in sorted(names):
+            if code not in seqs:
+                continue
+            if code == 0x2d and mname != 'EM_AARCH64':     # GNU_window_save is SPARC's; the clone describes the AArch64 meaning
+                continue
+            nm = '/'.join(sorted(names[code]))
+            for ver in ((1, 3, 4) if (mname == 'EM_X86_64' and code in (0x80, 0x0c, 0x0f)) else (1,)):
+                secbytes = cfi_section(le, asz, cie_instrs, seqs[code], version=ver, data_align=da, ra=ra)
+                model = dw_elf(info, cls=cls, machine=m, extra={'.debug_frame': secbytes})
+                for opt in ('--debug-dump=frames', '--debug-dump=frames-interp'):
+                    out.append(synth(opt, 'dw_cfa|m=%s|%s(0x%x)' % (mname, nm, code) if code == 0x2d else 'dw_cfa|%s(0x%x)' % (nm, code),
+                                     {'after': r'\bfde\b'}, model))
+    return out
+
+
+# ---- -x / -p : dumps of full, empty and NOBITS sections, by name and by index (keys are the line classes, so that the
+# random layer reports the same root cause under the same key)
+
+def dump_cases():
+    out = []
+    for cls, le in CELLS:
+        m = EM['X86_64'] if cls == 64 else EM['I386']
+        big = (1 << (cls - 1)) + 0x1230
+        secs = [sec('.text', SHT_PROGBITS, 6, addr=big, align=16, data=bytes(range(0x20, 0x20 + 37))),
+                sec('.empty', SHT_PROGBITS, 2, addr=0x2000, data=b''),
+                sec('.bss', SHT_NOBITS, 3, addr=0x3000, data=b'', size_override=0x40),
+                sec('.strs', SHT_PROGBITS, 0x30, entsize=1, data=b'\0first\0second string\0\0x\0' + b'y' * 70 + b'\0tail'),
+                sec('.one', SHT_PROGBITS, 2, addr=0xfff8, data=b'\x7f'),
+                sec('.sixteen', SHT_PROGBITS, 2, addr=0x10, data=bytes(range(16)))]
+        model = elf_model(cls, le, m, secs)
+        for opt in ('-x.text', '-x.empty', '-x.bss', '-x.strs', '-x.one', '-x.sixteen', '-p.text', '-p.empty', '-p.bss', '-p.strs',
+                    '-p.sixteen', '-x1', '-x2', '-x3', '-p2', '-p3', '-p4', '-x0', '-p.shstrtab', '-x.shstrtab'):
+            out.append({'kind': 'synth', 'opt': opt, 'what': None, 'mark': None, 'model': model, 'family': 'dump'})
+    return out
+
+
 def synth_cases(tier):
     out = []
-    for f in (header_cases, section_cases, segment_cases, symbol_cases, dynamic_cases, note_cases, reloc_cases, version_cases):
+    for f in (header_cases, section_cases, segment_cases, symbol_cases, dynamic_cases, note_cases, reloc_cases, version_cases,
+              dwarf_cases, cfa_cases, dump_cases):
         out += f()
     return out
+
+
+# ---------------------------------------------------------------------------
+# (iii) random files: several entries combined, arbitrary numeric fields.  Only description-table entries on which the
+# two tools agree in the sweep are drawn here (the table entries themselves are the sweep's job); what varies freely is
+# everything numeric or structural: classes, byte orders, counts, addresses, sizes, alignments, names, payload bytes.
+
+RND_MACHINES = [  # (e_machine, class, byte orders, e_flags) - flags chosen non-zero where a zero word is a listed finding
+    (EM['X86_64'], 64, (True,), 0), (EM['I386'], 32, (True,), 0), (EM['ARM'], 32, (True, False), 0x05000200),
+    (EM['AARCH64'], 64, (True, False), 0), (EM['MIPS'], 32, (True, False), 0x70001007), (EM['MIPS'], 64, (True, False), 0x80000007),
+    (EM['PPC64'], 64, (True, False), 2), (EM['PPC'], 32, (False,), 0), (EM['S390'], 64, (False,), 0), (EM['RISCV'], 64, (True,), 5),
+    (EM['X86_64'], 32, (True,), 0),
+]
+RND_SH_TYPES = [SHT_PROGBITS, SHT_PROGBITS, SHT_NOBITS, 14, 15, 16, SHT_STRTAB, SHT_NOTE]
+RND_SH_FLAG_BITS = [0x1, 0x2, 0x4, 0x10, 0x20, 0x40, 0x80, 0x100, 0x200, 0x400, 0x80000000, 0x00100000]
+RND_SEC_NAMES = ['.data', '.bss', '.rodata', '.init_array', '.tdata', '.tbss', '.note.c18', '.comment', '.x',
+                 '.c18_a_long_section_name_xyz', '.exactly17charact', '.data.rel.ro', '.fini_array']
+RND_P_TYPES = [0, 1, 1, 4, 5, 6, 7, 0x6474e550, 0x6474e551, 0x6474e552, 0x6474e553]
+RND_SYM_NAMES = ['main', 'c18_symbol', 'x', '_ZN3c1818a_rather_long_mangled_nameEv', 'exactly_twenty_five_chars', 'data_start',
+                 'twenty_six_characters_long', '__bss_start']
+RND_DYN_TAGS = [3, 4, 5, 6, 7, 8, 9, 10, 11, 12, 13, 17, 18, 19, 21, 23, 25, 26, 27, 28, 32, 33, 2, 0x6ffffef5, 0x6ffffff0,
+                0x6ffffff9, 0x6ffffffa, 0x6ffffffc, 0x6ffffffd, 0x6ffffffe, 0x6fffffff, 16, 22]
+RND_ALIGNS = [0, 1, 2, 4, 8, 16, 0x40, 0x1000, 0x10000, 0x200000]
+
+
+def rnd_word(ch, bits):
+    return ch.word(bits)
+
+
+def build_random(ch, tier):
+    shape = ch.choice(['layout', 'layout', 'layout', 'dynamic', 'reloc', 'symbols'])
+    machine, cls, les, e_flags = ch.choice(RND_MACHINES)
+    le = ch.choice(list(les))
+    word = 4 if cls == 32 else 8
+    if shape == 'dynamic':
+        n = ch.int(1, 10)
+        tags = []
+        for _ in range(n):
+            t = ch.choice(RND_DYN_TAGS + [1, 14, 15, 29, 30, 0x6ffffffb, 20])
+            if t in (1, 14, 15, 29):
+                v = ('str', ch.choice(['libc18.so.1', 'libm.so.6', '$ORIGIN/../lib']))
+            elif t == 30:
+                v = ch.choice([1, 2, 4, 8, 0x10, 0x1f, 0xa])
+            elif t == 0x6ffffffb:
+                v = ch.choice([1, 0x8000001, 0x8, 0x421, 0x0fffffff])
+            elif t == 20:
+                v = ch.choice([7, 17])
+            else:
+                v = rnd_word(ch, cls)
+            tags.append((t, v))
+        model = dyn_model(cls, le, machine, tags, e_type=ch.choice([3, 3, 2]),
+                          strings=('libc18.so.1', 'libm.so.6', '$ORIGIN/../lib'))
+        model['e_flags'] = e_flags
+        return {'kind': 'random', 'opt': ch.choice(['-d', '-d', '-d', '-l', '-e', '-h']), 'what': None, 'mark': None, 'model': model}
+    if shape == 'reloc':
+        nsym = ch.int(1, 4)
+        names = [RND_SYM_NAMES[(k * 3 + nsym) % len(RND_SYM_NAMES)] for k in range(nsym)]
+        blob, offs = W.build_strtab(names)
+        syms = W.enc_sym(cls, le, 0, 0, 0, 0, 0, 0)
+        for nm in names:
+            syms += W.enc_sym(cls, le, offs[nm], rnd_word(ch, cls), ch.choice([0, 4, 8]), ch.choice([0x12, 0x11, 0x10, 0x02, 0x21]), 0,
+                              ch.choice([0, 1, 1, 0xfff1]))
+        # an unnamed STT_SECTION symbol: both tools print the section name instead
+        syms += W.enc_sym(cls, le, 0, 0, 0, 0x03, 0, 1)
+        secs = [text_sec(), sec('.strtab', SHT_STRTAB, data=blob),
+                sec('.symtab', SHT_SYMTAB, link=2, info=1, entsize=W.SYM_SIZE[cls], align=word, data=syms)]
+        mips64 = machine == EM['MIPS'] and cls == 64
+        for k in range(ch.int(1, 2)):
+            rela = ch.bool()
+            rel = b''
+            for _ in range(ch.int(1, 6)):
+                t = ch.choice([1, 2])
+                add = None
+                if rela:
+                    add = ch.choice([0, 1, 0x10, -1, -8, 0x7fffffff, -0x80000000]) if cls == 32 else \
+                        ch.choice([0, 1, 0x10, -1, -8, 0x7fffffffffffffff, -0x8000000000000000, 0x12345678])
+                symi = ch.int(0, nsym + 1)
+                if mips64:
+                    rel += W.enc_rel(cls, le, rnd_word(ch, cls), symi, t, add, mips64=(0, ch.choice([0, 1, 2]), ch.choice([0, 1, 2])))
+                else:
+                    rel += W.enc_rel(cls, le, rnd_word(ch, cls), symi, t, add)
+            secs.append(sec(('.rela' if rela else '.rel') + ('.text' if k == 0 else '.data'), SHT_RELA if rela else SHT_REL, 0x40,
+                            link=3, info=1, entsize=(3 if rela else 2) * word, align=word, data=rel))
+        model = elf_model(cls, le, machine, secs, e_flags=e_flags)
+        return {'kind': 'random', 'opt': ch.choice(['-r', '-r', '-r', '-s', '-S']), 'what': None, 'mark': None, 'model': model}
+    # layout / symbols.  Extents of sections and segments stay inside the address space (start + size does not wrap)
+    def half(v):
+        return v >> 1
+    nsec = ch.int(0, 5)
+    names = ch.perm(RND_SEC_NAMES)[:nsec]
+    secs = [sec('.text', SHT_PROGBITS, SHF_ALLOC | SHF_EXECINSTR, addr=half(rnd_word(ch, cls)), align=ch.choice([1, 4, 16]),
+                data=ch.bytes(1, 70))]
+    texty = []
+    for nm in names:
+        typ = ch.choice(RND_SH_TYPES)
+        flags = 0
+        for _ in range(ch.int(0, 3)):
+            flags |= ch.choice(RND_SH_FLAG_BITS)
+        kw = {}
+        if typ == SHT_NOBITS:
+            data = b''
+            kw['size_override'] = half(rnd_word(ch, cls))
+        elif typ == SHT_STRTAB:
+            data = b'\0' + b'\0'.join(ch.choice([b'alpha', b'be ta', b'~[gamma]{}', b'', b'x' * 70]) for _ in range(ch.int(0, 4))) + b'\0'
+        elif typ == SHT_NOTE:
+            data = W.enc_note(le, b'GNU\0', ch.bytes(20), 3)
+        elif ch.bool(0.4):      # text-like payload (the only kind that is string-dumped: printable ASCII and NULs)
+            data = b'\0'.join(ch.choice([b'GCC: (c18) 12.2.0', b'a', b'', b'hello, world', b'%s: %d', b'abcd' * 9])
+                               for _ in range(ch.int(1, 4))) + ch.choice([b'', b'\0'])
+            texty.append(nm)
+        else:
+            data = ch.bytes(0, 60)
+        if typ == SHT_STRTAB:
+            texty.append(nm)
+        secs.append(sec(nm, typ, flags, addr=half(rnd_word(ch, cls)) if (flags & SHF_ALLOC or ch.bool(0.2)) else 0,
+                        link=ch.int(0, nsec + 2), info=ch.choice([0, 1, 3, 0xffff, 0x12345]), align=ch.choice(RND_ALIGNS),
+                        entsize=ch.choice([0, 0, 1, 4, 8, 0x18, 0x100]), data=data, **kw))
+    nsecs_total = 1 + len(secs) + 3      # null + user + strtab + symtab + shstrtab
+    nsym = ch.int(0, 6) if shape == 'layout' else ch.int(3, 12)
+    snames = [RND_SYM_NAMES[(k * 5 + nsym) % len(RND_SYM_NAMES)] + ('' if k < len(RND_SYM_NAMES) else str(k)) for k in range(nsym)]
+    blob, offs = W.build_strtab(snames)
+    syms = W.enc_sym(cls, le, 0, 0, 0, 0, 0, 0)
+    for nm in snames:
+        st_type = ch.choice([0, 1, 2, 3, 4, 5, 6])
+        shndx = ch.choice(([0, 0xfff1, 0xfff2] if st_type != 3 else []) + list(range(1, 1 + len(secs))) * 2)
+        size = ch.choice([0, 1, 8, 99999, 100000, 0x7fffffff, (1 << cls) - 1])
+        syms += W.enc_sym(cls, le, 0 if (st_type == 3 and ch.bool()) else offs[nm], rnd_word(ch, cls), size,
+                          (ch.choice([0, 1, 2]) << 4) | st_type, ch.choice([0, 1, 2, 3]), shndx)
+    strtab_index = 1 + len(secs)
+    secs.append(sec('.strtab', SHT_STRTAB, data=blob))
+    secs.append(sec('.symtab', SHT_SYMTAB, link=strtab_index, info=1, entsize=W.SYM_SIZE[cls], align=word, data=syms))
+    segs = []
+    e_type = 1
+    if ch.bool(0.6):
+        e_type = 2
+        for _ in range(ch.int(1, 4)):
+            pt = ch.choice(RND_P_TYPES)
+            if ch.bool(0.7):
+                i = ch.int(1, len(secs))
+                j = ch.int(i, min(len(secs), i + 2))
+                delta = ch.choice([0, 0, 0, 1, -1])
+                segs.append({'p_type': pt, 'p_flags': ch.int(0, 7), 'p_offset': ['sec_off', i, 0], 'p_vaddr': ['sec_addr', i, 0],
+                             'p_paddr': ['sec_addr', i, 0],
+                             'p_filesz': ['sec_off', j, 0] if False else ['sec_size', i, delta if secs[i - 1]['sh_type'] != SHT_NOBITS else 0],
+                             'p_memsz': ['sec_size', i, max(delta, 0) + ch.choice([0, 0, 0x10])], 'p_align': ch.choice(RND_ALIGNS)})
+            else:
+                segs.append({'p_type': pt, 'p_flags': ch.int(0, 7), 'p_offset': half(rnd_word(ch, cls)), 'p_vaddr': half(rnd_word(ch, cls)),
+                             'p_paddr': rnd_word(ch, cls), 'p_filesz': half(rnd_word(ch, cls)), 'p_memsz': half(rnd_word(ch, cls)),
+                             'p_align': ch.choice(RND_ALIGNS + [(1 << cls) - 1])})
+    model = elf_model(cls, le, machine, secs, segs, e_type=e_type, e_flags=e_flags, e_entry=rnd_word(ch, cls),
+                      osabi=ch.choice([0, 0, 3, 9]), abiver=ch.choice([0, 0, 1]))
+    dumpable = ['.text', '.shstrtab', '.strtab'] + names
+    texty += ['.shstrtab', '.strtab']
+    if shape == 'symbols':
+        opt = '-s'
+    else:
+        k = ch.int(0, 9)
+        opt = ['-h', '-S', '-S', '-l', '-l', '-e', '-s', '-x', '-p', '-x'][k]
+        if opt in ('-x', '-p'):
+            target = ch.choice(dumpable if opt == '-x' else texty)
+            opt += target if ch.bool(0.8) else str(1 + ([s_['name'] for s_ in model['sections'][1:]].index(target)))
+    return {'kind': 'random', 'opt': opt, 'what': None, 'mark': None, 'model': model}
 
 
 # ---------------------------------------------------------------------------
@@ -1301,16 +1869,53 @@ def corpus_cases():
     return [{'kind': 'corpus', 'file': CORPUS_DIR + '/' + f, 'opt': o} for f in files for o in opts]
 
 
+_SWEEP = {}
+
+
 def sweep(tier):
-    return corpus_cases() + synth_cases(tier)
+    if tier not in _SWEEP:
+        cases = corpus_cases() + synth_cases(tier)
+        # interleave so that the 16 shards (case i goes to shard i % 16) get equal shares of the slow corpus dumps
+        _SWEEP[tier] = cases
+    return _SWEEP[tier]
 
 
 def strategy(tier):
-    return st.sampled_from(corpus_cases())
+    @st.composite
+    def rnd(draw):
+        return build_random(HypChooser(draw), tier)
+    return rnd()
 
 
 def floors(ctx):
     out = []
-    if not have_readelf() or ctx.counters.get('oracle.absent'):
+    c = ctx.counters
+    if not have_readelf() or c.get('oracle.absent'):
         out.append('deciding oracle %s is absent: nothing decided' % READELF)
+        return out
+    for k in ('kind.corpus', 'kind.synth', 'kind.random', 'nontrivial.corpus', 'nontrivial.synth', 'nontrivial.random',
+              'pairs.equal_whole', 'lines.compared'):
+        if not c.get(k):
+            out.append('counter %s is 0' % k)
+    for t in ('e_machine', 'ei_osabi', 'e_type', 'e_flags', 'sh_type', 'sh_flags', 'p_type', 'p_flags', 'st_type', 'st_bind',
+              'st_visibility', 'st_shndx', 'd_tag', 'dt_flags', 'dt_flags_1', 'note_abi_tag_os', 'note_type', 'gnu_property',
+              'reloc', 'ver_flags'):
+        if not c.get('table.%s' % t):
+            out.append('no synthesized file for table %s' % t)
+    opts = [o for o in proj()['options'] if not o.startswith('-x') and not o.startswith('-p')] + ['-x', '-p'] + EXTRA_OPTIONS
+    for o in opts:
+        if not c.get('opt.%s' % o):
+            out.append('option %s never compared' % o)
+    decided = c.get('pairs.equal_whole', 0) + c.get('pairs.analysed_by_line', 0)
+    if c.get('oracle.rc_nonzero', 0) * 20 > max(decided, 1):
+        out.append('GNU readelf failed on %d pairs (more than 5%% of the %d decided ones): generator not well formed?'
+                   % (c.get('oracle.rc_nonzero', 0), decided))
     return out
+
+
+def evidence_extra(ctx):
+    P = proj()
+    skipped = sorted(k for k in ctx.counters if k.startswith('excluded.'))
+    return {'external_oracles': {READELF: readelf_version() if have_readelf() else 'absent'},
+            'options': list(P['options']) + EXTRA_OPTIONS, 'options_parsed_from_runner': P['options_from_runner'],
+            'skipped': {k: ctx.counters[k] for k in skipped}}
